@@ -1,14 +1,29 @@
 //! C18 — governance updates take effect exactly as submitted.
 //! Real factories (4) and minters (11) inside one cw-multi-test `App` vs `LP.Gov` (Lean). See docs/C18.md.
+//!
+//! Round 3 conventions:
+//! * the monitors judge the contracts against a GHOST kept by the harness from what it SENT (the params it instantiated the
+//!   factory with, the fields of every accepted update, the arguments of every creation, the flags of every UpdateStatus) —
+//!   never against an answer of the code under test that the same bug would corrupt;
+//! * the harness never panics on unexpected contract behaviour: saturating / checked arithmetic on everything observed, no
+//!   `unwrap` on observations, and every generator part runs under `catch` (a harness panic is an unmet coverage floor, the
+//!   findings collected so far are still reported);
+//! * output lines are `primary ## outside-projection`: the split between fee recipients (C06/C02), the running supply (C01)
+//!   and refusals the model does not have (hardening outside the property) are behind ` ## `;
+//! * `upd` lines carry the implementation's verdict (`acc=`) to the model as a CHECKED witness (`LP.Gov.updW`);
+//! * the message surface (factory `SudoMsg` / `ExecuteMsg` variants, fields of the update messages, keys of the `Params`
+//!   answers, `sg4::SudoMsg`) is enumerated at RUN TIME; unknown items are noted, marked and exercised under the monitors.
 use lp_harness::minters::*;
-use lp_harness::world::{addr, denom_id, ID_FAIRBURN_POOL, ID_LAUNCHPAD_DAO, ID_LIQUIDITY_DAO};
+use lp_harness::world::{addr, addr_id, denom_id, ID_FAIRBURN_POOL, ID_LAUNCHPAD_DAO, ID_LIQUIDITY_DAO};
 use lp_harness::*;
 use serde_json::{json, Map, Value};
 use std::collections::{BTreeMap, BTreeSet};
 
 const ADMIN: u64 = 10;
+const GOV: u64 = 90;
 const DEV_IDS: std::ops::RangeInclusive<u64> = 60..=69;
 const DAY: u64 = 86_400_000_000_000;
+const SEC: u64 = 1_000_000_000;
 const T0: u64 = GENESIS + 1_000_000_000_000;
 
 // ------------------------------------------------------------------------------------------------ update lines
@@ -33,6 +48,10 @@ struct Upd {
     dev: Option<u64>,
     ext: Option<bool>,
     nulls: bool,
+    /// send the message through the factory's `migrate` entry point instead of `sudo`
+    via_mig: bool,
+    /// a field of the update message this file has no name for (found in the schema at run time): `top.<name>` / `ext.<name>`
+    xf: Option<String>,
 }
 
 fn kv_coin(line: &str, key: &str) -> Option<(u64, u128)> {
@@ -67,6 +86,8 @@ impl Upd {
             dev: kv_u64(line, "dev"),
             ext: kv_bool(line, "ext"),
             nulls: kv_bool(line, "nulls").unwrap_or(false),
+            via_mig: kv(line, "via") == Some("m"),
+            xf: kv(line, "xf").map(|s| s.to_string()),
         }
     }
     fn line(&self) -> String {
@@ -92,10 +113,13 @@ impl Upd {
         put("xminp", self.xminp.map(fmt_coin));
         put("dev", self.dev.map(|x| x.to_string()));
         put("ext", self.ext.map(|b| (b as u8).to_string()));
+        put("xf", self.xf.clone());
         put("nulls", Some((self.nulls as u8).to_string()));
+        put("via", Some(if self.via_mig { "m".to_string() } else { "s".to_string() }));
         s
     }
-    /// the real sudo message for a factory kind (only that factory's fields are emitted; cw_serde denies unknown fields)
+    /// the update message for a factory kind (only that factory's fields are emitted; cw_serde denies unknown fields).
+    /// `sudo` wraps it in `{"update_params": …}`, `migrate` takes it as it is (`Option<Msg>`).
     fn to_json(&self, f: FactoryKind) -> Value {
         let nulls = self.nulls;
         let put = |m: &mut Map<String, Value>, k: &str, v: Option<Value>| match v {
@@ -119,6 +143,7 @@ impl Upd {
         }
         put(&mut top, "max_trading_offset_secs", self.off.map(|x| json!(x)));
         let mut ext = Map::new();
+        let mut has_ext_obj = true;
         match f {
             FactoryKind::Vending | FactoryKind::TokenMerge => {
                 put(&mut ext, "max_token_limit", self.mtl.map(|x| json!(x)));
@@ -126,7 +151,6 @@ impl Upd {
                 put(&mut ext, "airdrop_mint_price", self.adp.map(jcoin));
                 put(&mut ext, "airdrop_mint_fee_bps", self.adbps.map(|x| json!(x)));
                 put(&mut ext, "shuffle_fee", self.shuf.map(jcoin));
-                top.insert("extension".into(), Value::Object(ext));
             }
             FactoryKind::OpenEdition => {
                 put(&mut ext, "max_token_limit", self.mtl.map(|x| json!(x)));
@@ -135,19 +159,251 @@ impl Upd {
                 put(&mut ext, "airdrop_mint_fee_bps", self.adbps.map(|x| json!(x)));
                 put(&mut ext, "airdrop_mint_price", self.adp.map(jcoin));
                 put(&mut ext, "dev_fee_address", self.dev.map(|x| json!(addr(x))));
-                top.insert("extension".into(), Value::Object(ext));
             }
             FactoryKind::Base => {
-                // `extension: Option<Empty>`: Some(Empty{}) = {}, None = null / absent
-                if self.ext == Some(true) {
-                    top.insert("extension".into(), json!({}));
-                } else if nulls {
-                    top.insert("extension".into(), Value::Null);
+                has_ext_obj = false;
+            }
+        }
+        // a field this file does not know (run-time schema enumeration): a schema-filled value, alone
+        if let Some(path) = &self.xf {
+            if let Some((place, name)) = path.split_once('.') {
+                let v = unknown_update_fields(f).into_iter().find(|(p, _)| p == path).map(|(_, v)| v).unwrap_or(Value::Null);
+                if place == "ext" && has_ext_obj {
+                    ext.insert(name.to_string(), v);
+                } else {
+                    top.insert(name.to_string(), v);
                 }
             }
         }
-        json!({ "update_params": Value::Object(top) })
+        if has_ext_obj {
+            top.insert("extension".into(), Value::Object(ext));
+        } else if self.ext == Some(true) {
+            // `extension: Option<Empty>`: Some(Empty{}) = {}, None = null / absent
+            top.insert("extension".into(), json!({}));
+        } else if nulls {
+            top.insert("extension".into(), Value::Null);
+        }
+        Value::Object(top)
     }
+    /// how many of the named optional fields are supplied
+    fn n_supplied(&self) -> usize {
+        [self.code.is_some(), self.add.is_some(), self.rm.is_some(), self.frozen.is_some(), self.cfee.is_some(), self.minp.is_some(), self.bps.is_some(), self.off.is_some(), self.mtl.is_some(), self.mpal.is_some(), self.adp.is_some(), self.adbps.is_some(), self.shuf.is_some(), self.xminp.is_some(), self.dev.is_some()]
+            .iter()
+            .filter(|b| **b)
+            .count()
+    }
+    /// names (as in `fields_of`) of the supplied fields
+    fn supplied_names(&self) -> Vec<&'static str> {
+        let mut v = vec![];
+        let mut p = |c: bool, n: &'static str| {
+            if c {
+                v.push(n)
+            }
+        };
+        p(self.code.is_some(), "code");
+        p(self.add.is_some(), "add");
+        p(self.rm.is_some(), "rm");
+        p(self.frozen.is_some(), "frozen");
+        p(self.cfee.is_some(), "cfee");
+        p(self.minp.is_some(), "minp");
+        p(self.bps.is_some(), "bps");
+        p(self.off.is_some(), "off");
+        p(self.mtl.is_some(), "mtl");
+        p(self.mpal.is_some(), "mpal");
+        p(self.adp.is_some(), "adp");
+        p(self.adbps.is_some(), "adbps");
+        p(self.shuf.is_some(), "shuf");
+        p(self.xminp.is_some(), "xminp");
+        p(self.dev.is_some(), "dev");
+        v
+    }
+}
+
+// ------------------------------------------------------------------------------------------------ run-time message surface
+
+fn sudo_schema(f: FactoryKind) -> Value {
+    use cosmwasm_schema::schema_for;
+    let r = match f {
+        FactoryKind::Vending => schema_for!(vending_factory::msg::SudoMsg),
+        FactoryKind::OpenEdition => schema_for!(open_edition_factory::msg::SudoMsg),
+        FactoryKind::TokenMerge => schema_for!(token_merge_factory::msg::SudoMsg),
+        FactoryKind::Base => schema_for!(base_factory::msg::BaseSudoMsg),
+    };
+    serde_json::to_value(&r).unwrap_or(Value::Null)
+}
+fn exec_schema(f: FactoryKind) -> Value {
+    use cosmwasm_schema::schema_for;
+    let r = match f {
+        FactoryKind::Vending => schema_for!(vending_factory::msg::ExecuteMsg),
+        FactoryKind::OpenEdition => schema_for!(open_edition_factory::msg::ExecuteMsg),
+        FactoryKind::TokenMerge => schema_for!(token_merge_factory::msg::ExecuteMsg),
+        FactoryKind::Base => schema_for!(base_factory::msg::ExecuteMsg),
+    };
+    serde_json::to_value(&r).unwrap_or(Value::Null)
+}
+fn minter_sudo_schema() -> Value {
+    serde_json::to_value(&cosmwasm_schema::schema_for!(sg4::SudoMsg)).unwrap_or(Value::Null)
+}
+
+/// (variant name in snake case, schema of its payload; None for a unit variant serialised as a bare string)
+fn schema_variants(root: &Value) -> Vec<(String, Option<Value>)> {
+    let mut out = vec![];
+    let mut alts: Vec<Value> = vec![];
+    for k in ["oneOf", "anyOf"] {
+        if let Some(a) = root[k].as_array() {
+            alts.extend(a.iter().cloned());
+        }
+    }
+    if alts.is_empty() {
+        alts.push(root.clone());
+    }
+    for alt in alts {
+        if let Some(en) = alt["enum"].as_array() {
+            for e in en {
+                if let Some(s) = e.as_str() {
+                    out.push((s.to_string(), None));
+                }
+            }
+        } else if let Some(req) = alt["required"].as_array() {
+            if let Some(name) = req.first().and_then(|x| x.as_str()) {
+                out.push((name.to_string(), Some(alt["properties"][name].clone())));
+            }
+        }
+    }
+    out.sort_by(|a, b| a.0.cmp(&b.0));
+    out.dedup_by(|a, b| a.0 == b.0);
+    out
+}
+
+/// follow `$ref` / single `allOf` / the non-null branch of an `anyOf`
+fn deref<'a>(s: &'a Value, defs: &'a Value, depth: u32) -> &'a Value {
+    if depth > 8 {
+        return s;
+    }
+    if let Some(r) = s["$ref"].as_str() {
+        let name = r.rsplit('/').next().unwrap_or("");
+        return deref(&defs[name], defs, depth + 1);
+    }
+    if let Some(a) = s["allOf"].as_array() {
+        if let Some(f) = a.first() {
+            return deref(f, defs, depth + 1);
+        }
+    }
+    if let Some(a) = s["anyOf"].as_array() {
+        if let Some(f) = a.iter().find(|x| x["type"] != "null") {
+            return deref(f, defs, depth + 1);
+        }
+    }
+    s
+}
+
+/// minimal JSON value for a schema: integers = k, coins native, strings = k (or an address when the name looks like one)
+fn fill(s: &Value, defs: &Value, k: u64, hint: &str, depth: u32) -> Value {
+    if depth > 8 {
+        return Value::Null;
+    }
+    if let Some(r) = s["$ref"].as_str() {
+        let name = r.rsplit('/').next().unwrap_or("");
+        if name == "Coin" {
+            return jcoin((0, k as u128));
+        }
+        return fill(&defs[name], defs, k, hint, depth + 1);
+    }
+    if let Some(a) = s["allOf"].as_array() {
+        if let Some(f) = a.first() {
+            return fill(f, defs, k, hint, depth + 1);
+        }
+    }
+    for key in ["anyOf", "oneOf"] {
+        if let Some(a) = s[key].as_array() {
+            // an Option<T>: send the T (the point is to SUPPLY the field)
+            if let Some(f) = a.iter().find(|x| x["type"] != "null") {
+                return fill(f, defs, k, hint, depth + 1);
+            }
+        }
+    }
+    if let Some(en) = s["enum"].as_array() {
+        return en.first().cloned().unwrap_or(Value::Null);
+    }
+    let ty: String = match &s["type"] {
+        Value::String(t) => t.clone(),
+        Value::Array(ts) => ts.iter().filter_map(|t| t.as_str()).find(|t| *t != "null").unwrap_or("").to_string(),
+        _ => String::new(),
+    };
+    match ty.as_str() {
+        "integer" | "number" => json!(k),
+        "string" => {
+            let h = hint.to_lowercase();
+            if ["addr", "recipient", "whitelist", "contract", "owner", "sender", "admin"].iter().any(|w| h.contains(w)) {
+                json!(addr(ADMIN))
+            } else {
+                json!(k.to_string())
+            }
+        }
+        "boolean" => json!(k % 2 == 1),
+        "array" => json!([]),
+        "object" => {
+            let mut m = Map::new();
+            if let Some(req) = s["required"].as_array() {
+                for r in req.iter().filter_map(|x| x.as_str()) {
+                    m.insert(r.to_string(), fill(&s["properties"][r], defs, k, r, depth + 1));
+                }
+            }
+            Value::Object(m)
+        }
+        _ => Value::Null,
+    }
+}
+
+const KNOWN_TOP_FIELDS: [&str; 9] = ["code_id", "add_sg721_code_ids", "rm_sg721_code_ids", "frozen", "creation_fee", "min_mint_price", "mint_fee_bps", "max_trading_offset_secs", "extension"];
+fn known_ext_fields(f: FactoryKind) -> Vec<&'static str> {
+    match f {
+        FactoryKind::Vending | FactoryKind::TokenMerge => vec!["max_token_limit", "max_per_address_limit", "airdrop_mint_price", "airdrop_mint_fee_bps", "shuffle_fee"],
+        FactoryKind::OpenEdition => vec!["max_token_limit", "max_per_address_limit", "min_mint_price", "airdrop_mint_fee_bps", "airdrop_mint_price", "dev_fee_address"],
+        FactoryKind::Base => vec![],
+    }
+}
+/// fields of the factory's update message that this file has no name for: (`top.<name>` | `ext.<name>`, schema-filled value)
+fn unknown_update_fields(f: FactoryKind) -> Vec<(String, Value)> {
+    let root = sudo_schema(f);
+    let defs = &root["definitions"];
+    let mut out = vec![];
+    for (name, payload) in schema_variants(&root) {
+        if name != "update_params" {
+            continue;
+        }
+        let Some(p) = payload else { continue };
+        let msg = deref(&p, defs, 0);
+        if let Some(props) = msg["properties"].as_object() {
+            for (k, sch) in props {
+                if !KNOWN_TOP_FIELDS.contains(&k.as_str()) {
+                    out.push((format!("top.{k}"), fill(sch, defs, 7, k, 0)));
+                }
+            }
+            let ext = deref(&msg["properties"]["extension"], defs, 0);
+            if let Some(eprops) = ext["properties"].as_object() {
+                let known = known_ext_fields(f);
+                for (k, sch) in eprops {
+                    if !known.contains(&k.as_str()) {
+                        out.push((format!("ext.{k}"), fill(sch, defs, 7, k, 0)));
+                    }
+                }
+            }
+        }
+    }
+    out
+}
+/// raw message for a variant found in a schema
+fn raw_variant_msg(root: &Value, name: &str, k: u64) -> Option<Value> {
+    let defs = &root["definitions"];
+    schema_variants(root).into_iter().find(|(n, _)| n == name).map(|(n, sch)| match sch {
+        None => Value::String(n),
+        Some(s) => {
+            let mut m = Map::new();
+            m.insert(n.clone(), fill(&s, defs, k, &n, 0));
+            Value::Object(m)
+        }
+    })
 }
 
 // ------------------------------------------------------------------------------------------------ params JSON -> canonical
@@ -169,55 +425,237 @@ fn fk_of(s: &str) -> FactoryKind {
     }
 }
 
-/// flat view of a Params query answer: name -> canonical value string
-fn flat_params(f: FactoryKind, p: &Value) -> BTreeMap<&'static str, String> {
-    let jc = |v: &Value| -> String {
-        format!("{}:{}", denom_id(v["denom"].as_str().unwrap_or("?")), v["amount"].as_str().unwrap_or("?"))
-    };
+/// flat view of a Params query answer: known fields (name -> canonical value string) + every key this file has no name for
+#[derive(Clone, Debug, Default, PartialEq)]
+struct Flat {
+    m: BTreeMap<&'static str, String>,
+    /// keys of the answer that are not in the expected list (a parameter added later): path -> raw JSON
+    extra: BTreeMap<String, String>,
+}
+impl Flat {
+    fn get(&self, k: &str) -> Option<&String> {
+        self.m.get(k)
+    }
+    fn ids(&self) -> Vec<u64> {
+        parse_ids(self.m.get("ids"))
+    }
+}
+fn parse_ids(s: Option<&String>) -> Vec<u64> {
+    s.filter(|x| *x != "-").map(|x| x.split(',').filter_map(|y| y.parse().ok()).collect()).unwrap_or_default()
+}
+
+const TOP_KEYS: [&str; 8] = ["code_id", "allowed_sg721_code_ids", "frozen", "creation_fee", "min_mint_price", "mint_fee_bps", "max_trading_offset_secs", "extension"];
+const TM_KEYS: [&str; 10] = ["code_id", "allowed_sg721_code_ids", "frozen", "creation_fee", "max_trading_offset_secs", "max_token_limit", "max_per_address_limit", "airdrop_mint_price", "airdrop_mint_fee_bps", "shuffle_fee"];
+const V_EXT_KEYS: [&str; 5] = ["max_token_limit", "max_per_address_limit", "airdrop_mint_price", "airdrop_mint_fee_bps", "shuffle_fee"];
+const O_EXT_KEYS: [&str; 5] = ["max_token_limit", "max_per_address_limit", "airdrop_mint_price", "airdrop_mint_fee_bps", "dev_fee_address"];
+
+/// a named parameter, wherever the answer keeps it (top level or `extension`): a field moved between the two by a refactoring
+/// of the params type is still the same parameter
+fn pfind<'a>(p: &'a Value, key: &str) -> &'a Value {
+    if !p[key].is_null() {
+        &p[key]
+    } else {
+        &p["extension"][key]
+    }
+}
+
+fn flat_params(f: FactoryKind, p: &Value) -> Flat {
+    let jc = |v: &Value| -> String { format!("{}:{}", denom_id(v["denom"].as_str().unwrap_or("?")), v["amount"].as_str().unwrap_or("?")) };
     let ju = |v: &Value| -> String { v.as_u64().map(|x| x.to_string()).unwrap_or_else(|| format!("?{v}")) };
     let mut m = BTreeMap::new();
-    m.insert("code", ju(&p["code_id"]));
-    let ids: Vec<u64> = p["allowed_sg721_code_ids"].as_array().map(|a| a.iter().filter_map(|x| x.as_u64()).collect()).unwrap_or_default();
+    m.insert("code", ju(pfind(p, "code_id")));
+    let ids: Vec<u64> = pfind(p, "allowed_sg721_code_ids").as_array().map(|a| a.iter().filter_map(|x| x.as_u64()).collect()).unwrap_or_default();
     m.insert("ids", fmt_list(&ids));
-    m.insert("frozen", (p["frozen"].as_bool().unwrap_or(false) as u8).to_string());
-    m.insert("cfee", jc(&p["creation_fee"]));
-    m.insert("off", ju(&p["max_trading_offset_secs"]));
+    let fr = pfind(p, "frozen");
+    m.insert("frozen", fr.as_bool().map(|b| (b as u8).to_string()).unwrap_or_else(|| format!("?{fr}")));
+    m.insert("cfee", jc(pfind(p, "creation_fee")));
+    m.insert("off", ju(pfind(p, "max_trading_offset_secs")));
     if f != FactoryKind::TokenMerge {
-        m.insert("minp", jc(&p["min_mint_price"]));
-        m.insert("bps", ju(&p["mint_fee_bps"]));
+        m.insert("minp", jc(pfind(p, "min_mint_price")));
+        m.insert("bps", ju(pfind(p, "mint_fee_bps")));
     }
-    let e = if f == FactoryKind::TokenMerge { p } else { &p["extension"] };
     match f {
         FactoryKind::Vending | FactoryKind::TokenMerge => {
-            m.insert("mtl", ju(&e["max_token_limit"]));
-            m.insert("mpal", ju(&e["max_per_address_limit"]));
-            m.insert("adp", jc(&e["airdrop_mint_price"]));
-            m.insert("adbps", ju(&e["airdrop_mint_fee_bps"]));
-            m.insert("shuf", jc(&e["shuffle_fee"]));
+            m.insert("mtl", ju(pfind(p, "max_token_limit")));
+            m.insert("mpal", ju(pfind(p, "max_per_address_limit")));
+            m.insert("adp", jc(pfind(p, "airdrop_mint_price")));
+            m.insert("adbps", ju(pfind(p, "airdrop_mint_fee_bps")));
+            m.insert("shuf", jc(pfind(p, "shuffle_fee")));
         }
         FactoryKind::OpenEdition => {
-            m.insert("mtl", ju(&e["max_token_limit"]));
-            m.insert("mpal", ju(&e["max_per_address_limit"]));
-            m.insert("adp", jc(&e["airdrop_mint_price"]));
-            m.insert("adbps", ju(&e["airdrop_mint_fee_bps"]));
-            m.insert("dev", lp_harness::world::addr_id(e["dev_fee_address"].as_str().unwrap_or("?")).to_string());
+            m.insert("mtl", ju(pfind(p, "max_token_limit")));
+            m.insert("mpal", ju(pfind(p, "max_per_address_limit")));
+            m.insert("adp", jc(pfind(p, "airdrop_mint_price")));
+            m.insert("adbps", ju(pfind(p, "airdrop_mint_fee_bps")));
+            m.insert("dev", addr_id(pfind(p, "dev_fee_address").as_str().unwrap_or("?")).to_string());
         }
         FactoryKind::Base => {
-            m.insert("ext", (!e.is_null() as u8).to_string());
+            m.insert("ext", (!p["extension"].is_null() as u8).to_string());
         }
     }
-    m
+    // exhaustive surface: every key of the answer (top level or extension) that is not a parameter this file knows is kept
+    // (raw) so that the frame conditions ("omitted fields unchanged", "nothing but governance writes the params") cover it too
+    let mut extra = BTreeMap::new();
+    let ext_keys: &[&str] = match f {
+        FactoryKind::Vending => &V_EXT_KEYS,
+        FactoryKind::OpenEdition => &O_EXT_KEYS,
+        _ => &[],
+    };
+    let known = |k: &str| if f == FactoryKind::TokenMerge { TM_KEYS.contains(&k) } else { TOP_KEYS.contains(&k) || ext_keys.contains(&k) };
+    if let Some(o) = p.as_object() {
+        for (k, v) in o {
+            if !known(k) {
+                extra.insert(k.clone(), v.to_string());
+            }
+        }
+    }
+    if let Some(o) = p["extension"].as_object() {
+        for (k, v) in o {
+            if !known(k) {
+                extra.insert(format!("extension.{k}"), v.to_string());
+            }
+        }
+    }
+    Flat { m, extra }
 }
 const ORDER: [&str; 15] = ["code", "ids", "frozen", "cfee", "minp", "bps", "off", "mtl", "mpal", "adp", "adbps", "shuf", "dev", "ext", "-"];
-fn render_flat(m: &BTreeMap<&'static str, String>) -> String {
-    ORDER.iter().filter_map(|k| m.get(k).map(|v| format!("{k}={v}"))).collect::<Vec<_>>().join(" ")
+fn render_flat(fl: &Flat) -> String {
+    ORDER.iter().filter_map(|k| fl.m.get(k).map(|v| format!("{k}={v}"))).collect::<Vec<_>>().join(" ")
+}
+fn render_extra(fl: &Flat) -> String {
+    fl.extra.iter().map(|(k, v)| format!("{k}={}", v.replace(' ', ""))).collect::<Vec<_>>().join(" ")
+}
+
+/// the scalar (non-list) parameters a factory's stored params have
+fn scalar_names(f: FactoryKind) -> Vec<&'static str> {
+    match f {
+        FactoryKind::Vending => vec!["code", "frozen", "cfee", "minp", "bps", "off", "mtl", "mpal", "adp", "adbps", "shuf"],
+        FactoryKind::OpenEdition => vec!["code", "frozen", "cfee", "minp", "bps", "off", "mtl", "mpal", "adp", "adbps", "dev"],
+        FactoryKind::TokenMerge => vec!["code", "frozen", "cfee", "off", "mtl", "mpal", "adp", "adbps", "shuf"],
+        FactoryKind::Base => vec!["code", "frozen", "cfee", "minp", "bps", "off", "ext"],
+    }
+}
+
+// ------------------------------------------------------------------------------------------------ the ghost
+
+/// What the params MUST be, from facts the harness knows independently of the code under test: the params it instantiated
+/// the factory with, and the supplied fields of every update the factory accepted since (code ids as a set).
+#[derive(Clone, Debug, Default)]
+struct Ghost {
+    m: BTreeMap<&'static str, String>,
+    ids: BTreeSet<u64>,
+}
+impl Ghost {
+    fn from_header(f: FactoryKind, h: &str) -> Ghost {
+        let mut m = BTreeMap::new();
+        for n in scalar_names(f) {
+            m.insert(n, kv(h, n).unwrap_or("?").to_string());
+        }
+        Ghost { m, ids: kv_ids(h, "ids").unwrap_or_default().into_iter().collect() }
+    }
+    /// the expected params after an ACCEPTED update: precisely the supplied fields replaced, (ids ∪ add) \ rm
+    fn apply(&mut self, f: FactoryKind, u: &Upd) {
+        let has = |n: &str| scalar_names(f).contains(&n);
+        let mut set = |n: &'static str, v: Option<String>| {
+            if let Some(v) = v {
+                if has(n) {
+                    self.m.insert(n, v);
+                }
+            }
+        };
+        set("code", u.code.map(|x| x.to_string()));
+        set("frozen", u.frozen.map(|b| (b as u8).to_string()));
+        set("cfee", u.cfee.map(fmt_coin));
+        set("minp", u.minp.map(fmt_coin));
+        set("bps", u.bps.map(|x| x.to_string()));
+        set("off", u.off.map(|x| x.to_string()));
+        set("mtl", u.mtl.map(|x| x.to_string()));
+        set("mpal", u.mpal.map(|x| x.to_string()));
+        set("adp", u.adp.map(fmt_coin));
+        set("adbps", u.adbps.map(|x| x.to_string()));
+        set("shuf", u.shuf.map(fmt_coin));
+        set("dev", u.dev.map(|x| x.to_string()));
+        // (`xminp`, the base factory's unit `ext` and unknown fields replace nothing: the stored params have no such field)
+        for a in u.add.clone().unwrap_or_default() {
+            self.ids.insert(a);
+        }
+        for r in u.rm.clone().unwrap_or_default() {
+            self.ids.remove(&r);
+        }
+    }
+    fn get(&self, k: &str) -> Option<&String> {
+        self.m.get(k)
+    }
+    fn u64(&self, k: &str) -> u64 {
+        self.m.get(k).and_then(|s| s.parse().ok()).unwrap_or(0)
+    }
+    fn coin(&self, k: &str) -> (u64, u128) {
+        coin_of_s(self.m.get(k))
+    }
+    /// first difference between a Params answer and the ghost
+    fn diff(&self, f: FactoryKind, q: &Flat) -> Option<String> {
+        for n in scalar_names(f) {
+            if q.m.get(n) != self.m.get(n) {
+                return Some(format!("{n}: Params query has {:?}, submitted so far {:?}", q.m.get(n), self.m.get(n)));
+            }
+        }
+        let got: BTreeSet<u64> = q.ids().into_iter().collect();
+        if got != self.ids {
+            return Some(format!("allowed ids: Params query has {:?}, submitted so far {:?}", got, self.ids));
+        }
+        None
+    }
+}
+
+fn coin_of_s(s: Option<&String>) -> (u64, u128) {
+    s.and_then(|s| s.split_once(':')).and_then(|(d, a)| Some((d.parse().ok()?, a.parse().ok()?))).unwrap_or((0, 0))
 }
 
 // ------------------------------------------------------------------------------------------------ the system under test
 
+/// a minter created by the harness: the address, plus GHOST facts (what the harness sent when it created / updated it)
 struct MinterH {
     addr: String,
     kind: MinterKind,
+    /// `start_time` sent in the creation
+    start: u64,
+    /// the price a mint must pay: the price sent in the creation / in the last accepted `UpdateMintPrice`; base minter: the
+    /// factory minimum price (ghost) at the moment of creation
+    price: (u64, u128),
+    /// flags of the last accepted `UpdateStatus` (all false after creation)
+    status: (bool, bool, bool),
+}
+
+/// who received what in one money-moving operation (all deltas saturating: never panics on unexpected balances)
+#[derive(Clone, Debug, Default)]
+struct Money {
+    devs: Vec<(u64, u128)>,
+    liq: u128,
+    lp: u128,
+    seller: u128,
+    burn: u128,
+    pool: u128,
+}
+impl Money {
+    fn dev_total(&self) -> u128 {
+        self.devs.iter().fold(0u128, |a, d| a.saturating_add(d.1))
+    }
+    /// everything that did not go to the seller
+    fn fee(&self) -> u128 {
+        self.dev_total().saturating_add(self.liq).saturating_add(self.lp).saturating_add(self.burn).saturating_add(self.pool)
+    }
+    fn render(&self) -> String {
+        format!("ok fee={} seller={} ## dev={} liq={} lp={} burn={} pool={}", self.fee(), self.seller, fmt_pairs(&self.devs), self.liq, self.lp, self.burn, self.pool)
+    }
+}
+
+struct Snap {
+    devs: Vec<u128>,
+    liq: u128,
+    lp: u128,
+    admin: u128,
+    total: u128,
+    pool: u128,
 }
 
 struct S {
@@ -232,23 +670,29 @@ struct S {
     finding: Option<(String, String)>,
     panics: u64,
     cur_sender: Option<u64>,
+    ghost: Ghost,
+    /// the factory could not be instantiated (every op answers `no-factory`)
+    dead: bool,
+    /// unknown keys seen in a Params answer (noted once by `main`)
+    seen_extra: BTreeSet<String>,
+    rebased: u64,
 }
 
 fn header_params(h: &str) -> FactoryParams {
     FactoryParams {
-        code_id: kv_u64(h, "code").unwrap(),
-        allowed_sg721_code_ids: kv_ids(h, "ids").unwrap(),
-        frozen: kv_bool(h, "frozen").unwrap(),
-        creation_fee: kv_coin(h, "cfee").unwrap(),
-        min_mint_price: kv_coin(h, "minp").unwrap(),
-        mint_fee_bps: kv_u64(h, "bps").unwrap(),
-        max_trading_offset_secs: kv_u64(h, "off").unwrap(),
-        max_token_limit: kv_u64(h, "mtl").unwrap() as u32,
-        max_per_address_limit: kv_u64(h, "mpal").unwrap() as u32,
-        airdrop_mint_price: kv_coin(h, "adp").unwrap(),
-        airdrop_mint_fee_bps: kv_u64(h, "adbps").unwrap(),
-        shuffle_fee: kv_coin(h, "shuf").unwrap(),
-        dev_fee_address: kv_u64(h, "dev").unwrap(),
+        code_id: kv_u64(h, "code").unwrap_or(0),
+        allowed_sg721_code_ids: kv_ids(h, "ids").unwrap_or_default(),
+        frozen: kv_bool(h, "frozen").unwrap_or(false),
+        creation_fee: kv_coin(h, "cfee").unwrap_or((0, 0)),
+        min_mint_price: kv_coin(h, "minp").unwrap_or((0, 0)),
+        mint_fee_bps: kv_u64(h, "bps").unwrap_or(0),
+        max_trading_offset_secs: kv_u64(h, "off").unwrap_or(0),
+        max_token_limit: kv_u64(h, "mtl").unwrap_or(0) as u32,
+        max_per_address_limit: kv_u64(h, "mpal").unwrap_or(0) as u32,
+        airdrop_mint_price: kv_coin(h, "adp").unwrap_or((0, 0)),
+        airdrop_mint_fee_bps: kv_u64(h, "adbps").unwrap_or(0),
+        shuffle_fee: kv_coin(h, "shuf").unwrap_or((0, 0)),
+        dev_fee_address: kv_u64(h, "dev").unwrap_or(60),
     }
 }
 fn params_header(f: FactoryKind, codes: &Codes, p: &FactoryParams, ext: bool) -> String {
@@ -264,15 +708,67 @@ fn params_header(f: FactoryKind, codes: &Codes, p: &FactoryParams, ext: bool) ->
 fn funds_of(line: &str) -> Vec<(u64, u128)> {
     kv_pairs(line, "funds").unwrap_or_default().into_iter().map(|(d, a)| (d as u64, a)).collect()
 }
+fn paid_total(funds: &[(u64, u128)]) -> u128 {
+    funds.iter().fold(0u128, |a, c| a.saturating_add(c.1))
+}
+fn wl_kind(k: MinterKind) -> WlKind {
+    if k.is_flex() {
+        WlKind::Flex
+    } else if k.is_merkle() {
+        WlKind::Merkle
+    } else {
+        WlKind::Plain
+    }
+}
+fn money_out<T>(line: &str, r: Result<T, String>, money: Option<Money>) -> (String, String, bool) {
+    match (r, money) {
+        (Ok(_), Some(m)) => (line.to_string(), m.render(), false),
+        (Err(e), _) => {
+            dbg_err(line, &e);
+            (line.to_string(), "err".into(), e.starts_with("panic"))
+        }
+        (Ok(_), None) => (line.to_string(), "err".into(), false),
+    }
+}
+fn outcome<T>(line: &str, r: Result<T, String>) -> (String, bool) {
+    match r {
+        Ok(_) => ("ok".into(), false),
+        Err(e) => {
+            dbg_err(line, &e);
+            ("err".into(), e.starts_with("panic"))
+        }
+    }
+}
 
 impl S {
     fn new() -> S {
-        S { w: World::new(T0), f: FactoryKind::Base, factory: String::new(), minters: BTreeMap::new(), tm_source: None, log: vec![], rebuilding: false, finding: None, panics: 0, cur_sender: None }
+        S {
+            w: World::new(T0),
+            f: FactoryKind::Base,
+            factory: String::new(),
+            minters: BTreeMap::new(),
+            tm_source: None,
+            log: vec![],
+            rebuilding: false,
+            finding: None,
+            panics: 0,
+            cur_sender: None,
+            ghost: Ghost::default(),
+            dead: false,
+            seen_extra: BTreeSet::new(),
+            rebased: 0,
+        }
+    }
+    /// record a monitor finding (the first one of an op wins; none while the world is being rebuilt)
+    fn report(&mut self, key: String, what: String) {
+        if !self.rebuilding && self.finding.is_none() {
+            self.finding = Some((key, what));
+        }
     }
     fn params_json(&self) -> Value {
         self.w.query(&self.factory, &json!({"params":{}})).map(|v| v["params"].clone()).unwrap_or(Value::Null)
     }
-    fn flat(&self) -> BTreeMap<&'static str, String> {
+    fn flat(&self) -> Flat {
         flat_params(self.f, &self.params_json())
     }
     fn kind_by_code(&self, a: &str) -> Option<MinterKind> {
@@ -292,15 +788,15 @@ impl S {
         self.f = fk_of(kv(header, "f").unwrap_or("B"));
         self.minters.clear();
         self.tm_source = None;
+        self.dead = false;
         for d in 0..3 {
             self.w.fund(&addr(ADMIN), d, 1u128 << 110);
         }
         if self.f == FactoryKind::TokenMerge {
             let pb = self.w.default_params(MinterKind::Base);
-            let fb = self.w.new_factory(FactoryKind::Base, &pb).expect("aux base factory");
             let ab = self.w.default_create(MinterKind::Base, &pb);
-            let (_m, c) = self.w.create_minter(&fb, MinterKind::Base, &ab).expect("aux base minter");
-            self.tm_source = Some(c);
+            let src = self.w.new_factory(FactoryKind::Base, &pb).and_then(|fb| self.w.create_minter(&fb, MinterKind::Base, &ab));
+            self.tm_source = src.ok().map(|(_m, c)| c);
         }
         let p = header_params(header);
         let mut j = p.to_json(self.f);
@@ -308,26 +804,47 @@ impl S {
             j["extension"] = json!({});
         }
         let code = self.w.factory_code(self.f);
-        self.factory = self.w.instantiate(code, &addr(90), &json!({ "params": j }), &[], None).expect("factory instantiate");
+        // the governance account is the wasm admin, so that the `migrate` path can be exercised
+        match self.w.instantiate(code, &addr(GOV), &json!({ "params": j }), &[], Some(&addr(GOV))) {
+            Ok(a) => self.factory = a,
+            Err(e) => {
+                dbg_err(header, &e);
+                self.factory = String::new();
+                self.dead = true;
+            }
+        }
+        self.ghost = Ghost::from_header(self.f, header);
+        if !self.dead {
+            // the ghost starts from what was submitted; should `instantiate` ever normalise a value, re-base on the answer
+            // (noted in the evidence) instead of raising an alarm that is not about an update
+            let q = self.flat();
+            if self.ghost.diff(self.f, &q).is_some() {
+                self.rebased += 1;
+                for n in scalar_names(self.f) {
+                    if let Some(v) = q.m.get(n) {
+                        self.ghost.m.insert(n, v.clone());
+                    }
+                }
+                self.ghost.ids = q.ids().into_iter().collect();
+            }
+        }
     }
 
-    /// balances relevant to the money observation, in denom `d`
-    fn snapshot(&self, d: u64) -> [u128; 6] {
-        let dev: u128 = DEV_IDS.map(|i| self.w.balance(&addr(i), d)).sum();
-        [
-            dev,
-            self.w.balance(&addr(ID_LIQUIDITY_DAO), d),
-            self.w.balance(&addr(ID_LAUNCHPAD_DAO), d),
-            self.w.balance(&addr(ADMIN), d),
-            self.total(d),
-            self.w.balance(&addr(ID_FAIRBURN_POOL), d),
-        ]
+    fn snapshot(&self, d: u64) -> Snap {
+        Snap {
+            devs: DEV_IDS.map(|i| self.w.balance(&addr(i), d)).collect(),
+            liq: self.w.balance(&addr(ID_LIQUIDITY_DAO), d),
+            lp: self.w.balance(&addr(ID_LAUNCHPAD_DAO), d),
+            admin: self.w.balance(&addr(ADMIN), d),
+            total: self.total(d),
+            pool: self.w.balance(&addr(ID_FAIRBURN_POOL), d),
+        }
     }
     /// sum of the balances of every account an operation of this harness can touch (cw-multi-test 1.2 has no Supply
     /// query): a decrease = coins burned
     fn total(&self, d: u64) -> u128 {
         let mut accts: BTreeSet<String> = BTreeSet::new();
-        for i in [ADMIN, 1, ID_LAUNCHPAD_DAO, ID_LIQUIDITY_DAO, ID_FAIRBURN_POOL, 30, 90] {
+        for i in [ADMIN, 1, ID_LAUNCHPAD_DAO, ID_LIQUIDITY_DAO, ID_FAIRBURN_POOL, 30, GOV] {
             accts.insert(addr(i));
         }
         for i in DEV_IDS {
@@ -340,20 +857,11 @@ impl S {
         if let Some(b) = self.cur_sender {
             accts.insert(addr(b));
         }
-        accts.iter().map(|a| self.w.balance(a, d)).sum()
+        accts.iter().fold(0u128, |a, x| a.saturating_add(self.w.balance(x, d)))
     }
 
-    fn devs(&self, d: u64) -> Vec<u128> {
-        DEV_IDS.map(|i| self.w.balance(&addr(i), d)).collect()
-    }
-    /// `id:amount` for every developer-fee account whose balance grew
-    fn dev_deltas(&self, d: u64, before: &[u128]) -> String {
-        let now = self.devs(d);
-        let v: Vec<(u64, u128)> = DEV_IDS.zip(now.iter().zip(before.iter())).filter(|(_, (a, b))| a != b).map(|(i, (a, b))| (i, a - b)).collect();
-        fmt_pairs(&v)
-    }
-    /// run a money-moving message and render who received what
-    fn money_op(&mut self, sender: u64, contract: &str, msg: &Value, funds: &[(u64, u128)]) -> (String, bool, Option<[u128; 6]>) {
+    /// run a money-moving call and observe who received what (in the denom of the attached funds)
+    fn money_run<R>(&mut self, sender: u64, funds: &[(u64, u128)], call: impl FnOnce(&mut World) -> Result<R, String>) -> (Result<R, String>, Option<Money>) {
         let d = funds.first().map(|c| c.0).unwrap_or(0);
         self.cur_sender = Some(sender);
         if sender != ADMIN {
@@ -362,245 +870,291 @@ impl S {
             }
         }
         let before = self.snapshot(d);
-        let devs_before = self.devs(d);
-        let r = self.w.exec(&addr(sender), contract, msg, funds);
-        match r {
-            Ok(_) => {
-                let after = self.snapshot(d);
-                let paid_by_admin: u128 = if sender == ADMIN { funds.iter().filter(|c| c.0 == d).map(|c| c.1).sum() } else { 0 };
-                let dl = [
-                    after[0] - before[0],
-                    after[1] - before[1],
-                    after[2] - before[2],
-                    (after[3] + paid_by_admin).wrapping_sub(before[3]),
-                    before[4] - after[4],
-                    after[5] - before[5],
-                ];
-                (format!("ok dev={} liq={} lp={} seller={} burn={} pool={}", self.dev_deltas(d, &devs_before), dl[1], dl[2], dl[3], dl[4], dl[5]), false, Some(dl))
-            }
-            Err(e) => {
-                dbg_err(&msg.to_string(), &e);
-                ("err".into(), e.starts_with("panic"), None)
-            }
+        let r = call(&mut self.w);
+        if r.is_err() {
+            return (r, None);
         }
+        let after = self.snapshot(d);
+        let paid_by_admin: u128 = if sender == ADMIN { funds.iter().filter(|c| c.0 == d).fold(0u128, |a, c| a.saturating_add(c.1)) } else { 0 };
+        let devs: Vec<(u64, u128)> = DEV_IDS.zip(after.devs.iter().zip(before.devs.iter())).filter(|(_, (a, b))| a > b).map(|(i, (a, b))| (i, a - b)).collect();
+        let m = Money {
+            devs,
+            liq: after.liq.saturating_sub(before.liq),
+            lp: after.lp.saturating_sub(before.lp),
+            seller: after.admin.saturating_add(paid_by_admin).saturating_sub(before.admin),
+            burn: before.total.saturating_sub(after.total),
+            pool: after.pool.saturating_sub(before.pool),
+        };
+        (r, Some(m))
     }
 
-    fn exec_inner(&mut self, line: &str) -> (String, bool) {
+    /// `line` → (line for the model, canonical output, did the contract panic)
+    fn exec_inner(&mut self, line: &str) -> (String, String, bool) {
         let op = line.split_whitespace().next().unwrap_or("");
+        if self.dead {
+            return (line.to_string(), "no-factory".into(), false);
+        }
         if let Some(now) = kv_u64(line, "now") {
             if now != self.w.time() {
                 self.w.set_time(now);
             }
         }
+        let plain = |x: (String, bool)| (line.to_string(), x.0, x.1);
         let slot = kv_u64(line, "m");
         let minter = slot.and_then(|s| self.minters.get(&s)).map(|m| (m.addr.clone(), m.kind));
-        let need_minter = matches!(op, "mint" | "airdrop" | "pal" | "shuffle" | "ustt" | "price" | "status" | "qs" | "qm");
+        let need_minter = matches!(op, "mint" | "airdrop" | "pal" | "shuffle" | "ustt" | "price" | "status" | "qs" | "qm" | "setwl");
         if need_minter && minter.is_none() {
-            return ("err".into(), false);
+            return (line.to_string(), "err".into(), false);
         }
+        let fl = fk_letter(self.f);
         match op {
             "upd" => {
                 let u = Upd::parse(line);
                 let before = self.flat();
-                let r = self.w.sudo(&self.factory.clone(), &u.to_json(self.f));
+                let msg = u.to_json(self.f);
+                let factory = self.factory.clone();
+                let r = if u.via_mig {
+                    let code = self.w.factory_code(self.f);
+                    self.w.migrate(&addr(GOV), &factory, code, &msg)
+                } else {
+                    self.w.sudo(&factory, &json!({ "update_params": msg }))
+                };
                 let after = self.flat();
-                if !self.rebuilding {
-                    self.finding = monitor_upd(self.f, &u, &before, &after, r.is_ok(), line);
+                let ok = r.is_ok();
+                let ghost_before = self.ghost.clone();
+                if ok {
+                    self.ghost.apply(self.f, &u);
                 }
-                match r {
-                    Ok(_) => ("ok".into(), false),
-                    Err(e) => {
-                        dbg_err(line, &e);
-                        ("err".into(), e.starts_with("panic"))
-                    }
+                if let Some((k, w)) = monitor_upd(self.f, &u, &ghost_before, &self.ghost, &before, &after, ok, line) {
+                    self.report(k, w);
                 }
+                let (out, p) = outcome(line, r);
+                (format!("{line} acc={}", ok as u8), out, p)
             }
-            "qp" => (format!("params {}", render_flat(&self.flat())), false),
+            "mignone" => {
+                let code = self.w.factory_code(self.f);
+                let factory = self.factory.clone();
+                let r = self.w.migrate(&addr(GOV), &factory, code, &Value::Null);
+                plain(outcome(line, r))
+            }
+            "qp" => {
+                let q = self.flat();
+                for k in q.extra.keys() {
+                    self.seen_extra.insert(format!("{fl}:{k}"));
+                }
+                let x = render_extra(&q);
+                (line.to_string(), if x.is_empty() { format!("params {}", render_flat(&q)) } else { format!("params {} ## extra {x}", render_flat(&q)) }, false)
+            }
             "qids" => {
                 let v = self.w.query(&self.factory, &json!({"allowed_collection_code_ids":{}})).unwrap_or(Value::Null);
                 let ids: Vec<u64> = v["code_ids"].as_array().map(|a| a.iter().filter_map(|x| x.as_u64()).collect()).unwrap_or_default();
                 let flat = self.flat();
-                if flat.get("ids") != Some(&fmt_list(&ids)) {
-                    self.finding = Some((format!("{}-factory/qids/differs-from-params", fk_letter(self.f)), format!("AllowedCollectionCodeIds={:?} but Params has ids={:?}", ids, flat.get("ids"))));
+                let set: BTreeSet<u64> = ids.iter().copied().collect();
+                if set != self.ghost.ids {
+                    let what = format!("AllowedCollectionCodeIds={:?} but the ids submitted so far give the set {:?}", ids, self.ghost.ids);
+                    self.report(format!("{fl}-factory/qids/not-the-submitted-set"), what);
+                } else if flat.get("ids") != Some(&fmt_list(&ids)) {
+                    let what = format!("AllowedCollectionCodeIds={:?} but Params has ids={:?}", ids, flat.get("ids"));
+                    self.report(format!("{fl}-factory/qids/differs-from-params"), what);
                 }
-                (format!("list ids={}", fmt_list(&ids)), false)
+                (line.to_string(), format!("list ids={}", fmt_list(&ids)), false)
             }
             "qid" => {
-                let x = kv_u64(line, "x").unwrap();
+                let x = kv_u64(line, "x").unwrap_or(0);
                 let v = self.w.query(&self.factory, &json!({"allowed_collection_code_id": x})).unwrap_or(Value::Null);
                 let allowed = v["allowed"].as_bool().unwrap_or(false);
-                let in_params = self.params_json()["allowed_sg721_code_ids"].as_array().map(|a| a.iter().any(|y| y.as_u64() == Some(x))).unwrap_or(false);
-                if allowed != in_params {
-                    self.finding = Some((format!("{}-factory/qid/differs-from-params", fk_letter(self.f)), format!("AllowedCollectionCodeId({x})={allowed} but membership in Params list is {in_params}")));
+                let in_params = self.flat().ids().contains(&x);
+                if allowed != self.ghost.ids.contains(&x) {
+                    let what = format!("AllowedCollectionCodeId({x})={allowed} but by the ids submitted so far it is {}", !allowed);
+                    self.report(format!("{fl}-factory/qid/not-the-submitted-set"), what);
+                } else if allowed != in_params {
+                    let what = format!("AllowedCollectionCodeId({x})={allowed} but membership in Params list is {in_params}");
+                    self.report(format!("{fl}-factory/qid/differs-from-params"), what);
                 }
-                (format!("allowed={}", allowed as u8), false)
+                (line.to_string(), format!("allowed={}", allowed as u8), false)
             }
             "create" => {
                 let p0 = self.w.default_params(self.any_kind());
                 let mut a = self.w.default_create(self.any_kind(), &p0);
                 a.creator = ADMIN;
-                a.sg721_code_id = kv_u64(line, "sg721").unwrap();
-                a.num_tokens = kv_opt_u64(line, "num").unwrap().map(|x| x as u32);
-                a.per_address_limit = kv_u64(line, "pal").unwrap() as u32;
-                a.mint_price = kv_coin(line, "price").unwrap();
+                a.sg721_code_id = kv_u64(line, "sg721").unwrap_or(0);
+                a.num_tokens = kv_opt_u64(line, "num").unwrap_or(None).map(|x| x.min(u32::MAX as u64) as u32);
+                a.per_address_limit = kv_u64(line, "pal").unwrap_or(0).min(u32::MAX as u64) as u32;
+                a.mint_price = kv_coin(line, "price").unwrap_or((0, 0));
                 a.funds = funds_of(line);
-                a.start_time = kv_u64(line, "start").unwrap();
-                a.end_time = if self.f == FactoryKind::OpenEdition { Some(a.start_time + 3650 * DAY) } else { None };
-                a.start_trading_time = kv_opt_u64(line, "stt").unwrap();
+                a.start_time = kv_u64(line, "start").unwrap_or(0);
+                a.end_time = if self.f == FactoryKind::OpenEdition { Some(a.start_time.saturating_add(3650 * DAY)) } else { None };
+                a.start_trading_time = kv_opt_u64(line, "stt").unwrap_or(None);
                 if let Some(c) = &self.tm_source {
                     a.mint_tokens = vec![(c.clone(), 1)];
                 }
-                let before_params = self.flat();
-                let msg = create_minter_json(self.any_kind(), &a);
                 let factory = self.factory.clone();
-                // find the new minter = first new contract of a minter code id
-                let (out, panicked, _) = {
-                    let d = a.funds.first().map(|c| c.0).unwrap_or(0);
-                    let before = self.snapshot(d);
-                    let r = self.w.create_minter(&factory, self.any_kind(), &a);
-                    let _ = msg;
-                    match r {
-                        Ok((m, _c)) => {
-                            let after = self.snapshot(d);
-                            let paid: u128 = a.funds.iter().filter(|c| c.0 == d).map(|c| c.1).sum();
-                            let kind = self.kind_by_code(&m).unwrap_or(self.any_kind());
-                            self.minters.insert(slot.unwrap(), MinterH { addr: m, kind });
-                            (
-                                format!("ok dev={} liq={} lp={} seller={} burn={} pool={}", if after[0] == before[0] { "-".to_string() } else { format!("?:{}", after[0] - before[0]) }, after[1] - before[1], after[2] - before[2], (after[3] + paid).wrapping_sub(before[3]), before[4] - after[4], after[5] - before[5]),
-                                false,
-                                (),
-                            )
+                let kind0 = self.any_kind();
+                let funds = a.funds.clone();
+                let (r, money) = self.money_run(ADMIN, &funds, |w| w.create_minter(&factory, kind0, &a));
+                match (r, money) {
+                    (Ok((m, _c)), Some(money)) => {
+                        let kind = self.kind_by_code(&m).unwrap_or(kind0);
+                        let price = if kind == MinterKind::Base { self.ghost.coin("minp") } else { a.mint_price };
+                        if let Some(s) = slot {
+                            self.minters.insert(s, MinterH { addr: m, kind, start: a.start_time, price, status: (false, false, false) });
                         }
-                        Err(e) => {
-                            dbg_err(line, &e);
-                            ("err".to_string(), e.starts_with("panic"), ())
+                        if let Some((k, w)) = monitor_create(self.f, &self.ghost, line) {
+                            self.report(k, w);
                         }
+                        (line.to_string(), money.render(), false)
                     }
-                };
-                if !self.rebuilding && out.starts_with("ok") {
-                    self.finding = monitor_create(self.f, &before_params, line);
+                    (Err(e), _) => {
+                        dbg_err(line, &e);
+                        (line.to_string(), "err".into(), e.starts_with("panic"))
+                    }
+                    _ => (line.to_string(), "err".into(), false),
                 }
-                (out, panicked)
             }
             "mint" => {
-                let (maddr, kind) = minter.unwrap();
+                let (maddr, kind) = minter.unwrap_or_default_pair();
                 let funds = funds_of(line);
-                let before_params = self.flat();
-                let price = self.minter_price(&maddr, kind);
+                let gprice = slot.and_then(|s| self.minters.get(&s)).map(|m| m.price).unwrap_or((0, 0));
                 let (sender, msg) = if kind == MinterKind::Base {
                     (ADMIN, json!({"mint":{"token_uri":"ipfs://bafybeigi3bwpvyvsmnbj46ra4hyffcxdeaj6ntfk5jpic5mx27x6ih2qvq/1.json"}}))
                 } else if kind.is_merkle() {
-                    (kv_u64(line, "buyer").unwrap(), json!({"mint":{"proof_hashes": null, "stage": null, "allocation": null}}))
+                    (kv_u64(line, "buyer").unwrap_or(100), json!({"mint":{"proof_hashes": null, "stage": null, "allocation": null}}))
                 } else {
-                    (kv_u64(line, "buyer").unwrap(), json!({"mint":{}}))
+                    (kv_u64(line, "buyer").unwrap_or(100), json!({"mint":{}}))
                 };
-                let (out, p, dl) = self.money_op(sender, &maddr, &msg, &funds);
-                if let (Some(dl), false) = (dl, self.rebuilding) {
-                    self.finding = monitor_mint(self.f, kind, &before_params, price, &dl, line);
+                let (r, money) = self.money_run(sender, &funds, |w| w.exec(&addr(sender), &maddr, &msg, &funds));
+                if let Some(m) = &money {
+                    if let Some((k, w)) = monitor_mint(self.f, kind, &self.ghost, gprice, &funds, m, line) {
+                        self.report(k, w);
+                    }
                 }
-                (out, p)
+                money_out(line, r, money)
             }
             "airdrop" => {
-                let (maddr, kind) = minter.unwrap();
+                let (maddr, kind) = minter.unwrap_or_default_pair();
                 let funds = funds_of(line);
-                let before_params = self.flat();
-                let (out, p, dl) = self.money_op(ADMIN, &maddr, &json!({"mint_to":{"recipient": addr(30)}}), &funds);
-                if let (Some(dl), false) = (dl, self.rebuilding) {
-                    self.finding = monitor_airdrop(self.f, kind, &before_params, &funds, &dl, line);
+                let msg = json!({"mint_to":{"recipient": addr(30)}});
+                let (r, money) = self.money_run(ADMIN, &funds, |w| w.exec(&addr(ADMIN), &maddr, &msg, &funds));
+                if let Some(m) = &money {
+                    if let Some((k, w)) = monitor_airdrop(self.f, kind, &self.ghost, &funds, m, line) {
+                        self.report(k, w);
+                    }
                 }
-                (out, p)
+                money_out(line, r, money)
             }
             "shuffle" => {
-                let (maddr, _) = minter.unwrap();
+                let (maddr, _) = minter.unwrap_or_default_pair();
                 let funds = funds_of(line);
-                let before_params = self.flat();
-                let (out, p, dl) = self.money_op(kv_u64(line, "buyer").unwrap(), &maddr, &json!({"shuffle":{}}), &funds);
-                if let (Some(_), false) = (dl, self.rebuilding) {
-                    let fee: u128 = before_params.get("shuf").and_then(|s| s.split_once(':')).and_then(|x| x.1.parse().ok()).unwrap_or(0);
-                    let paid: u128 = funds.iter().map(|c| c.1).sum();
+                let sender = kv_u64(line, "buyer").unwrap_or(100);
+                let msg = json!({"shuffle":{}});
+                let (r, money) = self.money_run(sender, &funds, |w| w.exec(&addr(sender), &maddr, &msg, &funds));
+                if money.is_some() {
+                    let fee = self.ghost.coin("shuf").1;
+                    let paid = paid_total(&funds);
                     if paid < fee {
-                        self.finding = Some((format!("{}-minter/shuffle/stale-shuffle-fee", fk_letter(self.f)), format!("shuffle accepted with {paid} < current shuffle fee {fee} on `{line}`")));
+                        self.report(format!("{fl}-minter/shuffle/stale-shuffle-fee"), format!("shuffle accepted with {paid} < current shuffle fee {fee} on `{line}`"));
                     }
                 }
-                (out, p)
+                money_out(line, r, money)
             }
             "pal" => {
-                let (maddr, _) = minter.unwrap();
-                let limit = kv_u64(line, "limit").unwrap();
-                let before_params = self.flat();
+                let (maddr, _) = minter.unwrap_or_default_pair();
+                let limit = kv_u64(line, "limit").unwrap_or(0);
                 let r = self.w.exec(&addr(ADMIN), &maddr, &json!({"update_per_address_limit":{"per_address_limit": limit}}), &[]);
-                if r.is_ok() && !self.rebuilding {
-                    let max: u64 = before_params.get("mpal").and_then(|s| s.parse().ok()).unwrap_or(u64::MAX);
+                if r.is_ok() {
+                    let max = self.ghost.u64("mpal");
                     if limit > max {
-                        self.finding = Some((format!("{}-minter/pal/stale-max-per-address-limit", fk_letter(self.f)), format!("UpdatePerAddressLimit({limit}) accepted although the factory's current max_per_address_limit is {max}")));
+                        self.report(format!("{fl}-minter/pal/stale-max-per-address-limit"), format!("UpdatePerAddressLimit({limit}) accepted although the factory's current max_per_address_limit is {max}"));
                     }
                 }
-                match r {
-                    Ok(_) => ("ok".into(), false),
-                    Err(e) => {
-                        dbg_err(line, &e);
-                        ("err".into(), e.starts_with("panic"))
-                    }
-                }
+                plain(outcome(line, r))
             }
             "ustt" => {
-                let (maddr, _) = minter.unwrap();
-                let t = kv_opt_u64(line, "t").unwrap();
+                let (maddr, kind) = minter.unwrap_or_default_pair();
+                let t = kv_opt_u64(line, "t").unwrap_or(None);
                 let r = self.w.exec(&addr(ADMIN), &maddr, &json!({"update_start_trading_time": jopt_time(t)}), &[]);
-                match r {
-                    Ok(_) => ("ok".into(), false),
-                    Err(e) => {
-                        dbg_err(line, &e);
-                        ("err".into(), e.starts_with("panic"))
+                if let (true, Some(t), true) = (r.is_ok(), t, kind != MinterKind::Base) {
+                    // "Subsequent … observe the new parameters": the bound is the minter's start + the CURRENT offset
+                    let start = slot.and_then(|s| self.minters.get(&s)).map(|m| m.start).unwrap_or(0);
+                    let off = self.ghost.u64("off");
+                    let bound = (start as u128).saturating_add((off as u128).saturating_mul(SEC as u128));
+                    if (t as u128) > bound {
+                        self.report(format!("{fl}-minter/ustt/stale-trading-offset"), format!("UpdateStartTradingTime({t}) accepted although start {start} + current max_trading_offset_secs {off} = {bound}"));
                     }
                 }
+                plain(outcome(line, r))
             }
             "price" => {
-                let (maddr, _) = minter.unwrap();
-                let p = kv_u128(line, "p").unwrap();
-                let before_params = self.flat();
+                let (maddr, _) = minter.unwrap_or_default_pair();
+                let p = kv_u128(line, "p").unwrap_or(0);
                 let r = self.w.exec(&addr(ADMIN), &maddr, &json!({"update_mint_price":{"price": p.to_string()}}), &[]);
-                if r.is_ok() && !self.rebuilding {
-                    let min: u128 = before_params.get("minp").and_then(|s| s.split_once(':')).and_then(|x| x.1.parse().ok()).unwrap_or(0);
+                if r.is_ok() {
+                    let min = self.ghost.coin("minp").1;
                     if p < min {
-                        self.finding = Some((format!("{}-minter/price/stale-min-mint-price", fk_letter(self.f)), format!("UpdateMintPrice({p}) accepted below the factory's current min_mint_price {min}")));
+                        self.report(format!("{fl}-minter/price/stale-min-mint-price"), format!("UpdateMintPrice({p}) accepted below the factory's current min_mint_price {min}"));
+                    }
+                    if let Some(m) = slot.and_then(|s| self.minters.get_mut(&s)) {
+                        m.price.1 = p;
                     }
                 }
-                match r {
-                    Ok(_) => ("ok".into(), false),
-                    Err(e) => {
-                        dbg_err(line, &e);
-                        ("err".into(), e.starts_with("panic"))
+                plain(outcome(line, r))
+            }
+            "setwl" => {
+                let (maddr, kind) = minter.unwrap_or_default_pair();
+                let wlp = kv_coin(line, "wlp").unwrap_or((0, 0));
+                let now = self.w.time();
+                let st = WlStage {
+                    start: now.saturating_add(10 * SEC),
+                    end: now.saturating_add(20 * SEC),
+                    mint_price: wlp,
+                    per_address_limit: 1,
+                    mint_count_limit: None,
+                    members: vec![(20, 1), (21, 1)],
+                    merkle_root: "ab".repeat(32),
+                };
+                let a = WlArgs { admin: ADMIN, member_limit: 10, admins_mutable: true, whale_cap: None, stages: vec![st] };
+                let r = match self.w.new_whitelist(wl_kind(kind), &a) {
+                    Ok(wl) => self.w.exec(&addr(ADMIN), &maddr, &json!({"set_whitelist":{"whitelist": wl}}), &[]),
+                    Err(e) => Err(format!("whitelist not created: {e}")),
+                };
+                if r.is_ok() {
+                    let min = self.ghost.coin("minp");
+                    if wlp.1 < min.1 || wlp.0 != min.0 {
+                        self.report(format!("{fl}-minter/setwl/stale-min-mint-price"), format!("SetWhitelist accepted a whitelist priced {:?} although the factory's current min_mint_price is {:?}", wlp, min));
                     }
                 }
+                plain(outcome(line, r))
             }
             "status" => {
-                let (maddr, kind) = minter.unwrap();
-                let (v, b, e) = (kv_bool(line, "v").unwrap(), kv_bool(line, "b").unwrap(), kv_bool(line, "e").unwrap());
+                let (maddr, kind) = minter.unwrap_or_default_pair();
+                let (v, b, e) = (kv_bool(line, "v").unwrap_or(false), kv_bool(line, "b").unwrap_or(false), kv_bool(line, "e").unwrap_or(false));
                 let r = self.w.sudo(&maddr, &json!({"update_status":{"is_verified": v, "is_blocked": b, "is_explicit": e}}));
-                if r.is_ok() && !self.rebuilding {
+                if r.is_ok() {
+                    if let Some(m) = slot.and_then(|s| self.minters.get_mut(&s)) {
+                        m.status = (v, b, e);
+                    }
                     let got = self.status(&maddr);
                     if got != Some((v, b, e)) {
-                        self.finding = Some((format!("{}/status/not-supplied-flags", kind.name()), format!("UpdateStatus({v},{b},{e}) accepted but Status returns {:?}", got)));
+                        self.report(format!("{}/status/not-supplied-flags", kind.name()), format!("UpdateStatus({v},{b},{e}) accepted but Status returns {:?}", got));
                     }
                 }
-                match r {
-                    Ok(_) => ("ok".into(), false),
-                    Err(e) => {
-                        dbg_err(line, &e);
-                        ("err".into(), e.starts_with("panic"))
-                    }
-                }
+                plain(outcome(line, r))
             }
             "qs" => {
-                let (maddr, _) = minter.unwrap();
+                let (maddr, kind) = minter.unwrap_or_default_pair();
+                let want = slot.and_then(|s| self.minters.get(&s)).map(|m| m.status);
                 match self.status(&maddr) {
-                    Some((v, b, e)) => (format!("status v={} b={} e={}", v as u8, b as u8, e as u8), false),
-                    None => ("err".into(), false),
+                    Some((v, b, e)) => {
+                        if want.is_some() && want != Some((v, b, e)) {
+                            self.report(format!("{}/status/not-the-last-supplied-flags", kind.name()), format!("Status returns ({v},{b},{e}) but the last accepted UpdateStatus (or the creation) set {:?}", want));
+                        }
+                        (line.to_string(), format!("status v={} b={} e={}", v as u8, b as u8, e as u8), false)
+                    }
+                    None => (line.to_string(), "err".into(), false),
                 }
             }
             "qm" => {
-                let (maddr, kind) = minter.unwrap();
+                let (maddr, kind) = minter.unwrap_or_default_pair();
                 let price = self.minter_price(&maddr, kind);
                 let (mintable, pal) = if kind == MinterKind::Base {
                     (None, 0u64)
@@ -609,9 +1163,18 @@ impl S {
                     let n = self.w.query(&maddr, &json!({"mintable_num_tokens":{}})).unwrap_or(Value::Null);
                     (n["count"].as_u64(), c["per_address_limit"].as_u64().unwrap_or(0))
                 };
-                (format!("minter kind={} price={} mintable={} pal={}", kind.idx(), fmt_coin(price), fmt_opt(&mintable), pal), false)
+                (line.to_string(), format!("minter kind={} price={} pal={} ## mintable={}", kind.idx(), fmt_coin(price), pal, fmt_opt(&mintable)), false)
             }
-            _ => ("bad-op".into(), false),
+            "xexec" => {
+                // an ExecuteMsg variant of the factory this file has no op for: raw JSON from the schema, by anybody
+                let name = kv(line, "v").unwrap_or("");
+                let msg = raw_variant_msg(&exec_schema(self.f), name, 1).unwrap_or(Value::Null);
+                let factory = self.factory.clone();
+                let r = self.w.exec(&addr(66), &factory, &msg, &[]);
+                let (o, p) = outcome(line, r);
+                (line.to_string(), format!("noise ## {o}"), p)
+            }
+            _ => (line.to_string(), "bad-op".into(), false),
         }
     }
     fn status(&self, m: &str) -> Option<(bool, bool, bool)> {
@@ -619,7 +1182,7 @@ impl S {
         let s = &v["status"];
         Some((s["is_verified"].as_bool()?, s["is_blocked"].as_bool()?, s["is_explicit"].as_bool()?))
     }
-    /// CONFIG.mint_price of a minter (token-merge has none: 0:0)
+    /// CONFIG.mint_price of a minter as the contract reports it (token-merge has none: 0:0)
     fn minter_price(&self, m: &str, kind: MinterKind) -> (u64, u128) {
         let c = self.w.query(m, &json!({"config":{}})).unwrap_or(Value::Null);
         let mp = if kind == MinterKind::Base { &c["config"]["mint_price"] } else { &c["mint_price"] };
@@ -630,16 +1193,25 @@ impl S {
     }
 }
 
+trait PairOr {
+    fn unwrap_or_default_pair(self) -> (String, MinterKind);
+}
+impl PairOr for Option<(String, MinterKind)> {
+    fn unwrap_or_default_pair(self) -> (String, MinterKind) {
+        self.unwrap_or_else(|| ("contract999999".to_string(), MinterKind::Vending))
+    }
+}
+
 impl Sut for S {
     fn begin(&mut self, header: &str) -> (String, String) {
         self.log = vec![header.to_string()];
         self.finding = None;
         self.start(header);
-        (header.to_string(), "case".to_string())
+        (header.to_string(), if self.dead { "no-factory".to_string() } else { "case".to_string() })
     }
     fn exec(&mut self, line: &str) -> (String, String) {
         self.finding = None;
-        let (out, panicked) = self.exec_inner(line);
+        let (model_line, out, panicked) = self.exec_inner(line);
         if panicked {
             // a panic may leave the App half-written: rebuild the world from the op log (the failed op is a no-op)
             self.panics += 1;
@@ -653,7 +1225,16 @@ impl Sut for S {
         } else {
             self.log.push(line.to_string());
         }
-        (line.to_string(), out)
+        // Frame ("nothing but a governance update writes the params"): after every operation that is not an update the
+        // Params answer is still what governance submitted so far (an update is judged by `monitor_upd`).
+        let op = line.split_whitespace().next().unwrap_or("");
+        if !self.dead && !matches!(op, "upd" | "qp" | "qids" | "qid" | "qs" | "qm") && self.finding.is_none() {
+            let q = self.flat();
+            if let Some(d) = self.ghost.diff(self.f, &q) {
+                self.report(format!("{}-factory/{op}/params-changed-without-governance-update", fk_letter(self.f)), format!("after `{line}` — {d}"));
+            }
+        }
+        (model_line, out)
     }
     fn monitor(&mut self) -> Option<(String, String)> {
         self.finding.take()
@@ -668,107 +1249,101 @@ fn dbg_err(line: &str, e: &str) {
 
 // ------------------------------------------------------------------------------------------------ monitors (property transcription)
 
-fn coin_of_s(s: Option<&String>) -> (u64, u128) {
-    s.and_then(|s| s.split_once(':')).and_then(|(d, a)| Some((d.parse().ok()?, a.parse().ok()?))).unwrap_or((0, 0))
-}
-
 /// "the parameters query returns the previous parameters with precisely the supplied fields replaced (code-id additions
 /// and removals applied as set operations, additions before removals), omitted fields unchanged, and an update that
-/// would move the minimum mint price to a non-native denom is refused" — on the implementation's own before/after queries.
-fn monitor_upd(f: FactoryKind, u: &Upd, before: &BTreeMap<&'static str, String>, after: &BTreeMap<&'static str, String>, ok: bool, line: &str) -> Option<(String, String)> {
-    let key = |p: &str| format!("{}-factory/upd/{p}", fk_letter(f));
+/// would move the minimum mint price to a non-native denom is refused".
+/// `gb` / `ga`: the ghost before / after (= what governance submitted so far: instantiation values, then the supplied
+/// fields of accepted updates). `before` / `after`: the factory's own Params answers.
+fn monitor_upd(f: FactoryKind, u: &Upd, gb: &Ghost, ga: &Ghost, before: &Flat, after: &Flat, ok: bool, line: &str) -> Option<(String, String)> {
+    let key = |p: &str| format!("{}-factory/{}/{p}", fk_letter(f), if u.via_mig { "mig" } else { "upd" });
     if !ok {
         if before != after {
             return Some((key("refused-update-changed-params"), format!("`{line}` was refused but Params changed: {} -> {}", render_flat(before), render_flat(after))));
         }
+        if let Some(d) = gb.diff(f, after) {
+            return Some((key("refused-update-changed-params"), format!("`{line}` was refused; {d}")));
+        }
         return None;
     }
     if f != FactoryKind::TokenMerge {
+        // a non-native minimum price is refused: (a) the message's own minimum-price field …
         if let Some((d, _)) = u.minp {
             if d != 0 {
                 return Some((key("non-native-min-price-accepted"), format!("`{line}` accepted; min_mint_price now {:?}", after.get("minp"))));
             }
         }
-    }
-    // supplied scalar fields (only those the factory's stored params have)
-    let supplied: Vec<(&'static str, Option<String>)> = vec![
-        ("code", u.code.map(|x| x.to_string())),
-        ("frozen", u.frozen.map(|b| (b as u8).to_string())),
-        ("cfee", u.cfee.map(fmt_coin)),
-        ("minp", u.minp.map(fmt_coin)),
-        ("bps", u.bps.map(|x| x.to_string())),
-        ("off", u.off.map(|x| x.to_string())),
-        ("mtl", u.mtl.map(|x| x.to_string())),
-        ("mpal", u.mpal.map(|x| x.to_string())),
-        ("adp", u.adp.map(fmt_coin)),
-        ("adbps", u.adbps.map(|x| x.to_string())),
-        ("shuf", u.shuf.map(fmt_coin)),
-        ("dev", u.dev.map(|x| x.to_string())),
-    ];
-    for (name, sup) in supplied {
-        let (Some(b), Some(a)) = (before.get(name), after.get(name)) else { continue };
-        match sup {
-            Some(v) if *a != v => return Some((key("supplied-field-not-taken"), format!("`{line}`: supplied {name}={v} but Params now has {name}={a}"))),
-            None if a != b => return Some((key("omitted-field-changed"), format!("`{line}`: {name} omitted but changed {b} -> {a}"))),
-            _ => {}
+        // … (b) by whatever route: the minimum price was native (as submitted so far) and after this accepted update the
+        // factory reports a non-native one
+        let was = gb.coin("minp");
+        let now = coin_of_s(after.get("minp"));
+        if was.0 == 0 && now.0 != 0 {
+            return Some((key("non-native-min-price-accepted"), format!("`{line}` accepted and moved min_mint_price from {} to the non-native {}", fmt_coin(was), fmt_coin(now))));
         }
     }
-    // the base factory's unit extension is never written
-    if let (Some(b), Some(a)) = (before.get("ext"), after.get("ext")) {
-        if a != b {
-            return Some((key("omitted-field-changed"), format!("`{line}`: stored extension changed {b} -> {a}")));
+    // every stored scalar: supplied value if supplied, else unchanged — judged against the ghost
+    let supplied: BTreeSet<&'static str> = u.supplied_names().into_iter().collect();
+    for name in scalar_names(f) {
+        let want = ga.get(name);
+        let got = after.get(name);
+        if want != got {
+            let was = gb.get(name);
+            return Some(if supplied.contains(name) {
+                (key("supplied-field-not-taken"), format!("`{line}`: supplied {name}={:?} but Params now has {name}={:?}", want, got))
+            } else {
+                (key("omitted-field-changed"), format!("`{line}`: {name} omitted but changed {:?} -> {:?}", was, got))
+            });
         }
+    }
+    // parameters this file has no name for are never supplied by it: they must not move
+    if before.extra != after.extra {
+        return Some((key("omitted-field-changed"), format!("`{line}`: unnamed parameter(s) changed {:?} -> {:?}", before.extra, after.extra)));
     }
     // code ids as sets: after = (before ∪ add) \ rm
-    let set = |s: Option<&String>| -> BTreeSet<u64> { s.filter(|x| *x != "-").map(|x| x.split(',').filter_map(|y| y.parse().ok()).collect()).unwrap_or_default() };
-    let mut want = set(before.get("ids"));
-    want.extend(u.add.clone().unwrap_or_default());
-    for r in u.rm.clone().unwrap_or_default() {
-        want.remove(&r);
-    }
-    let got = set(after.get("ids"));
-    if want != got {
-        return Some((key("code-id-set-semantics"), format!("`{line}`: allowed ids {:?} -> {:?}, expected set {:?}", before.get("ids"), after.get("ids"), want)));
+    let got: BTreeSet<u64> = after.ids().into_iter().collect();
+    if ga.ids != got {
+        return Some((key("code-id-set-semantics"), format!("`{line}`: allowed ids {:?} -> {:?}, expected set {:?}", before.get("ids"), after.get("ids"), ga.ids)));
     }
     None
 }
 
-/// a creation that succeeded must satisfy the factory's CURRENT parameters
-fn monitor_create(f: FactoryKind, cur: &BTreeMap<&'static str, String>, line: &str) -> Option<(String, String)> {
+/// a creation that succeeded must satisfy the factory's CURRENT parameters (= what governance submitted so far)
+fn monitor_create(f: FactoryKind, cur: &Ghost, line: &str) -> Option<(String, String)> {
     let key = |p: &str| format!("{}-factory/create/{p}", fk_letter(f));
     if cur.get("frozen").map(|s| s.as_str()) == Some("1") {
         return Some((key("created-while-frozen"), format!("`{line}` succeeded although the factory is currently frozen")));
     }
-    let sg = kv_u64(line, "sg721").unwrap();
-    let ids: BTreeSet<u64> = cur.get("ids").filter(|x| *x != "-").map(|x| x.split(',').filter_map(|y| y.parse().ok()).collect()).unwrap_or_default();
-    if !ids.contains(&sg) {
-        return Some((key("collection-code-not-currently-allowed"), format!("`{line}` succeeded although {sg} is not in the current allowed list {:?}", ids)));
+    let sg = kv_u64(line, "sg721").unwrap_or(0);
+    if !cur.ids.contains(&sg) {
+        return Some((key("collection-code-not-currently-allowed"), format!("`{line}` succeeded although {sg} is not in the current allowed set {:?}", cur.ids)));
     }
-    let fee = coin_of_s(cur.get("cfee"));
+    let fee = cur.coin("cfee");
     let paid = funds_of(line);
     if paid.len() != 1 || paid[0].0 != fee.0 || paid[0].1 < fee.1 {
         return Some((key("stale-creation-fee"), format!("`{line}` succeeded although the current creation fee is {:?}", fee)));
     }
-    if let (Some(mtl), Some(Some(n))) = (cur.get("mtl").and_then(|s| s.parse::<u64>().ok()), kv_opt_u64(line, "num")) {
-        if n > mtl {
-            return Some((key("stale-max-token-limit"), format!("`{line}` succeeded although current max_token_limit is {mtl}")));
+    if f != FactoryKind::Base {
+        if let Some(Some(n)) = kv_opt_u64(line, "num") {
+            let mtl = cur.u64("mtl");
+            if n > mtl {
+                return Some((key("stale-max-token-limit"), format!("`{line}` succeeded although current max_token_limit is {mtl}")));
+            }
         }
-    }
-    if let (Some(mpal), Some(pal)) = (cur.get("mpal").and_then(|s| s.parse::<u64>().ok()), kv_u64(line, "pal")) {
-        if pal > mpal {
+        let mpal = cur.u64("mpal");
+        if kv_u64(line, "pal").unwrap_or(0) > mpal {
             return Some((key("stale-max-per-address-limit"), format!("`{line}` succeeded although current max_per_address_limit is {mpal}")));
         }
     }
     if matches!(f, FactoryKind::Vending | FactoryKind::OpenEdition) {
-        let min = coin_of_s(cur.get("minp"));
-        let price = kv_coin(line, "price").unwrap();
+        let min = cur.coin("minp");
+        let price = kv_coin(line, "price").unwrap_or((0, 0));
         if price.1 < min.1 || price.0 != min.0 {
             return Some((key("stale-min-mint-price"), format!("`{line}` succeeded although current min_mint_price is {:?}", min)));
         }
     }
     if f != FactoryKind::Base {
-        if let (Some(off), Some(Some(t)), Some(start)) = (cur.get("off").and_then(|s| s.parse::<u128>().ok()), kv_opt_u64(line, "stt"), kv_u64(line, "start")) {
-            if t as u128 > start as u128 + off * 1_000_000_000 {
+        if let (Some(Some(t)), Some(start)) = (kv_opt_u64(line, "stt"), kv_u64(line, "start")) {
+            let off = cur.u64("off") as u128;
+            if t as u128 > (start as u128).saturating_add(off.saturating_mul(SEC as u128)) {
                 return Some((key("stale-trading-offset"), format!("`{line}` succeeded although current max_trading_offset_secs is {off}")));
             }
         }
@@ -776,40 +1351,55 @@ fn monitor_create(f: FactoryKind, cur: &BTreeMap<&'static str, String>, line: &s
     None
 }
 
-/// a public mint must split the price by the factory's CURRENT mint_fee_bps
-fn monitor_mint(f: FactoryKind, kind: MinterKind, cur: &BTreeMap<&'static str, String>, price: (u64, u128), dl: &[u128; 6], line: &str) -> Option<(String, String)> {
-    let bps: u128 = cur.get("bps").and_then(|s| s.parse().ok())?;
-    let want = price.1.checked_mul(bps)? / 10_000;
+/// open edition: the developer share goes to the CURRENT `dev_fee_address` — no other developer account may grow
+fn stale_dev(f: FactoryKind, cur: &Ghost, m: &Money) -> Option<String> {
+    if f != FactoryKind::OpenEdition {
+        return None;
+    }
+    let dev = cur.u64("dev");
+    m.devs.iter().find(|(i, _)| *i != dev).map(|(i, a)| format!("developer account {i} received {a} although the current dev_fee_address is {dev}"))
+}
+
+/// a public mint must split what was paid by the factory's CURRENT mint_fee_bps
+fn monitor_mint(f: FactoryKind, kind: MinterKind, cur: &Ghost, gprice: (u64, u128), funds: &[(u64, u128)], m: &Money, line: &str) -> Option<(String, String)> {
+    let bps = cur.get("bps").and_then(|s| s.parse::<u128>().ok())?;
+    let paid = paid_total(funds);
     if kind == MinterKind::Base {
-        let got = dl[4] + dl[5];
-        if got != want {
-            return Some((format!("{}/mint/stale-mint-fee-bps", kind.name()), format!("`{line}`: burned+pool {got}, expected captured price {} x current bps {bps} = {want}", price.1)));
+        // the whole payment is the fee: captured price × CURRENT bps, fair-burned
+        let want = gprice.1.checked_mul(bps)? / 10_000;
+        let got = m.fee();
+        if paid != want || got != want {
+            return Some((format!("{}/mint/stale-mint-fee-bps", kind.name()), format!("`{line}`: paid {paid}, burned+pool {got}, expected captured price {} x current bps {bps} = {want}", gprice.1)));
         }
         return None;
     }
-    let got = dl[0] + dl[1] + dl[2];
-    if got != want || dl[3] != price.1 - want {
-        return Some((format!("{}/mint/stale-mint-fee-bps", kind.name()), format!("`{line}` ({} factory): fee {got} seller {}, expected fee {want} = price {} x current bps {bps}", fk_letter(f), dl[3], price.1)));
+    let want = paid.checked_mul(bps)? / 10_000;
+    if m.fee() != want || m.seller != paid.saturating_sub(want) {
+        return Some((format!("{}/mint/stale-mint-fee-bps", kind.name()), format!("`{line}` ({} factory): fee {} seller {}, expected fee {want} = paid {paid} x current bps {bps}", fk_letter(f), m.fee(), m.seller)));
+    }
+    if let Some(w) = stale_dev(f, cur, m) {
+        return Some((format!("{}/mint/stale-dev-fee-address", kind.name()), format!("`{line}`: {w}")));
     }
     None
 }
 
 /// an airdrop must charge the CURRENT airdrop price and split it by the CURRENT airdrop fee bps
-fn monitor_airdrop(_f: FactoryKind, kind: MinterKind, cur: &BTreeMap<&'static str, String>, funds: &[(u64, u128)], dl: &[u128; 6], line: &str) -> Option<(String, String)> {
-    let price = coin_of_s(cur.get("adp"));
-    let bps: u128 = cur.get("adbps").and_then(|s| s.parse().ok())?;
-    let paid: u128 = funds.iter().map(|c| c.1).sum();
-    if paid != price.1 || (paid != 0 && funds[0].0 != price.0) {
+fn monitor_airdrop(f: FactoryKind, kind: MinterKind, cur: &Ghost, funds: &[(u64, u128)], m: &Money, line: &str) -> Option<(String, String)> {
+    let price = cur.coin("adp");
+    let bps = cur.get("adbps").and_then(|s| s.parse::<u128>().ok())?;
+    let paid = paid_total(funds);
+    if paid != price.1 || (paid != 0 && funds.first().map(|c| c.0) != Some(price.0)) {
         return Some((format!("{}/airdrop/stale-airdrop-price", kind.name()), format!("`{line}` accepted although the current airdrop price is {:?}", price)));
     }
     let want = price.1.checked_mul(bps)? / 10_000;
-    let got = dl[0] + dl[1] + dl[2];
-    if got != want {
-        return Some((format!("{}/airdrop/stale-airdrop-fee-bps", kind.name()), format!("`{line}`: fee {got}, expected {} x current airdrop bps {bps} = {want}", price.1)));
+    if m.fee() != want {
+        return Some((format!("{}/airdrop/stale-airdrop-fee-bps", kind.name()), format!("`{line}`: fee {}, expected {} x current airdrop bps {bps} = {want}", m.fee(), price.1)));
+    }
+    if let Some(w) = stale_dev(f, cur, m) {
+        return Some((format!("{}/airdrop/stale-dev-fee-address", kind.name()), format!("`{line}`: {w}")));
     }
     None
 }
-
 
 // ------------------------------------------------------------------------------------------------ generators
 
@@ -870,7 +1460,7 @@ fn rand_ids_in(r: &mut Rng, uni: &[u64]) -> Vec<u64> {
     let mut v: Vec<u64> = vec![];
     for _ in 0..n {
         if !v.is_empty() && r.chance(1, 4) {
-            let last = *v.last().unwrap();
+            let last = v.last().copied().unwrap_or(1);
             v.push(last); // consecutive duplicate
         } else {
             v.push(*r.pick(uni));
@@ -903,7 +1493,7 @@ fn rand_params(r: &mut Rng, codes: &Codes) -> (FactoryParams, bool) {
 
 /// an update supplying exactly the fields named in `names`, arbitrary values (native denom with probability 0.9 where checked)
 fn rand_upd(r: &mut Rng, f: FactoryKind, names: &[&str], codes: &Codes) -> Upd {
-    let mut u = Upd { nulls: r.chance(1, 2), ..Default::default() };
+    let mut u = Upd { nulls: r.chance(1, 2), via_mig: r.chance(1, 4), ..Default::default() };
     for n in names {
         match *n {
             "code" => u.code = Some(rand_u64(r)),
@@ -921,7 +1511,7 @@ fn rand_upd(r: &mut Rng, f: FactoryKind, names: &[&str], codes: &Codes) -> Upd {
             "shuf" => u.shuf = Some(rand_coin(r, 9)),
             "xminp" => u.xminp = Some(rand_coin(r, 5)),
             "dev" => u.dev = Some(r.range(60, 69)),
-            _ => unreachable!(),
+            _ => {}
         }
     }
     if f == FactoryKind::Base {
@@ -941,11 +1531,7 @@ fn class_of_upd(f: FactoryKind, u: &Upd, out: &str) -> String {
     } else {
         "native"
     };
-    let n = [u.code.is_some(), u.add.is_some(), u.rm.is_some(), u.frozen.is_some(), u.cfee.is_some(), u.minp.is_some(), u.bps.is_some(), u.off.is_some(), u.mtl.is_some(), u.mpal.is_some(), u.adp.is_some(), u.adbps.is_some(), u.shuf.is_some(), u.xminp.is_some(), u.dev.is_some()]
-        .iter()
-        .filter(|b| **b)
-        .count();
-    let bucket = match n {
+    let bucket = match u.n_supplied() {
         0 => "0",
         1 => "1",
         2..=4 => "2-4",
@@ -959,44 +1545,148 @@ fn class_of_upd(f: FactoryKind, u: &Upd, out: &str) -> String {
         (None, Some(_)) => "rm",
         _ => "noids",
     };
-    format!("{}:upd:{}:{}:{}:{}:nulls{}", fk_letter(f), out, fault, bucket, ids, u.nulls as u8)
+    format!("{}:{}:{}:{}:{}:{}:nulls{}", fk_letter(f), if u.via_mig { "mig" } else { "upd" }, out, fault, bucket, ids, u.nulls as u8)
+}
+
+/// class marks of one executed update (also the coverage floor's raw material)
+fn mark_upd(ses: &mut Session, f: FactoryKind, u: &Upd, out: &str) {
+    let fl = fk_letter(f);
+    let res = out.split_whitespace().next().unwrap_or("?");
+    ses.mark(class_of_upd(f, u, res));
+    if res == "ok" {
+        for n in u.supplied_names() {
+            if fields_of(f).contains(&n) {
+                ses.mark(format!("{fl}:field:{n}:accepted"));
+            }
+        }
+    }
+    // the open-edition message's own `extension.min_mint_price`: native / non-native, with / without the top-level field
+    if f == FactoryKind::OpenEdition {
+        if let Some(x) = u.xminp {
+            let dn = if x.0 == 0 { "native" } else { "nonnative" };
+            let top = match u.minp {
+                None => "alone",
+                Some(m) if m.0 == 0 => "with-native-minp",
+                Some(_) => "with-nonnative-minp",
+            };
+            ses.mark(format!("O:xminp:{dn}:{top}:{res}"));
+        }
+    }
 }
 
 /// Part A: every subset of the optional fields of every factory's update message, in random order, in sequences
-/// (each `upd` followed by the three queries).
+/// (each `upd` followed by the three queries); a quarter of the updates travel through `migrate`.
 fn part_masks(ses: &mut Session, sut: &mut S, codes: &Codes) {
     let seq_len = 32usize;
     let rounds = ses.scale(1, 4);
     for _round in 0..rounds {
+        for f in ALL_F {
+            let names = fields_of(f);
+            let k = names.len();
+            let mut masks: Vec<u32> = (0..(1u32 << k)).collect();
+            ses.rng.shuffle(&mut masks);
+            for chunk in masks.chunks(seq_len) {
+                let (p, ext) = rand_params(&mut ses.rng, codes);
+                let header = format!("{} part=masks", params_header(f, codes, &p, ext));
+                ses.begin_case(sut, &header);
+                ses.step(sut, "qp");
+                for m in chunk {
+                    let sel: Vec<&str> = (0..k).filter(|i| m & (1 << i) != 0).map(|i| names[i]).collect();
+                    let u = rand_upd(&mut ses.rng, f, &sel, codes);
+                    let out = ses.step(sut, &u.line());
+                    mark_upd(ses, f, &u, &out);
+                    ses.count(&format!("mask-size:{}", sel.len()));
+                    ses.step(sut, "qp");
+                    ses.step(sut, "qids");
+                    let uni = [codes.sg721_base, codes.sg721_updatable, codes.sg721_nt, codes.sg721_metadata_onchain, 1, 2, 3, 77, 5];
+                    let x = *ses.rng.pick(&uni);
+                    let o = ses.step(sut, &format!("qid x={x}"));
+                    ses.mark(format!("{}:qid:{}", fk_letter(f), o));
+                }
+                if ses.rng.chance(1, 8) {
+                    let o = ses.step(sut, "mignone");
+                    ses.mark(format!("{}:mignone:{}", fk_letter(f), o));
+                    ses.step(sut, "qp");
+                }
+                ses.end_case();
+            }
+            if _round == 0 {
+                ses.note(format!("{}-factory: all 2^{} = {} subsets of the optional update fields exercised ({} round(s) with fresh random values)", fk_letter(f), k, 1u32 << k, rounds));
+            }
+        }
+    }
+}
+
+/// Part 0: the message surface, enumerated at run time from the crates' JSON schemas. Items this file has no name for are
+/// noted, marked, and (where anybody / governance can send them) sent under the monitors.
+fn part_surface(ses: &mut Session, sut: &mut S, codes: &Codes) {
     for f in ALL_F {
-        let names = fields_of(f);
-        let k = names.len();
-        let mut masks: Vec<u32> = (0..(1u32 << k)).collect();
-        ses.rng.shuffle(&mut masks);
-        for chunk in masks.chunks(seq_len) {
-            let (p, ext) = rand_params(&mut ses.rng, codes);
-            let header = format!("{} part=masks", params_header(f, codes, &p, ext));
+        let fl = fk_letter(f);
+        let kind = ALL_MINTERS.iter().copied().find(|k| k.factory() == f).unwrap_or(MinterKind::Base);
+        let p = sane_params(&mut ses.rng, kind, codes);
+        let sudo: Vec<String> = schema_variants(&sudo_schema(f)).into_iter().map(|x| x.0).collect();
+        let exec: Vec<String> = schema_variants(&exec_schema(f)).into_iter().map(|x| x.0).collect();
+        if !sudo.iter().any(|v| v == "update_params") {
+            ses.note(format!("{fl}-factory: SudoMsg has no `update_params` variant any more: {:?}", sudo));
+        } else {
+            ses.mark(format!("surface:{fl}:sudo:update_params"));
+        }
+        for v in sudo.iter().filter(|v| *v != "update_params") {
+            ses.note(format!("{fl}-factory: UNKNOWN SudoMsg variant `{v}` (a governance path this check does not model)"));
+            ses.mark(format!("unknown-sudo-variant:{fl}:{v}"));
+        }
+        let unknown_fields = unknown_update_fields(f);
+        let unknown_exec: Vec<&String> = exec.iter().filter(|v| *v != "create_minter").collect();
+        if !unknown_fields.is_empty() || !unknown_exec.is_empty() {
+            let header = format!("{} part=surface", params_header(f, codes, &p, false));
             ses.begin_case(sut, &header);
             ses.step(sut, "qp");
-            for m in chunk {
-                let sel: Vec<&str> = (0..k).filter(|i| m & (1 << i) != 0).map(|i| names[i]).collect();
-                let u = rand_upd(&mut ses.rng, f, &sel, codes);
-                let out = ses.step(sut, &u.line());
-                ses.mark(class_of_upd(f, &u, &out));
-                ses.count(&format!("mask-size:{}", sel.len()));
+            for (path, _) in &unknown_fields {
+                ses.note(format!("{fl}-factory: UNKNOWN field `{path}` in the update message: sent alone, every known parameter must stay"));
+                ses.mark(format!("unknown-update-field:{fl}:{path}"));
+                for via in ["s", "m"] {
+                    ses.step(sut, &format!("upd xf={path} nulls=0 via={via}"));
+                    ses.step(sut, "qp");
+                }
+            }
+            for v in unknown_exec {
+                ses.note(format!("{fl}-factory: UNKNOWN ExecuteMsg variant `{v}`: sent raw, the params must stay"));
+                ses.mark(format!("unknown-exec-variant:{fl}:{v}"));
+                ses.step(sut, &format!("xexec v={v}"));
                 ses.step(sut, "qp");
-                ses.step(sut, "qids");
-                let uni = [codes.sg721_base, codes.sg721_updatable, codes.sg721_nt, codes.sg721_metadata_onchain, 1, 2, 3, 77, 5];
-                let x = *ses.rng.pick(&uni);
-                let o = ses.step(sut, &format!("qid x={x}"));
-                ses.mark(format!("{}:qid:{}", fk_letter(f), o));
             }
             ses.end_case();
         }
-        if _round == 0 {
-            ses.note(format!("{}-factory: all 2^{} = {} subsets of the optional update fields exercised ({} round(s) with fresh random values)", fk_letter(f), k, 1u32 << k, rounds));
+        ses.mark(format!("surface:{fl}:checked"));
+    }
+    let ms: Vec<String> = schema_variants(&minter_sudo_schema()).into_iter().map(|x| x.0).collect();
+    for v in ms.iter().filter(|v| *v != "update_status") {
+        ses.note(format!("minters: UNKNOWN sg4::SudoMsg variant `{v}`"));
+        ses.mark(format!("unknown-sudo-variant:minter:{v}"));
+    }
+    if ms.iter().any(|v| v == "update_status") {
+        ses.mark("surface:minter:sudo:update_status".to_string());
+    }
+}
+
+/// Part E: the stored corpus (`corpus/C18/*.json`, field `ops`): counter-examples and past failing inputs, re-run every time
+fn part_corpus(ses: &mut Session, sut: &mut S, _codes: &Codes) {
+    let dir = std::env::var("VERIF_CORPUS").unwrap_or_else(|_| "corpus/C18".to_string());
+    let mut files: Vec<std::path::PathBuf> = std::fs::read_dir(&dir).map(|d| d.filter_map(|e| e.ok().map(|e| e.path())).filter(|p| p.extension().map(|x| x == "json").unwrap_or(false)).collect()).unwrap_or_default();
+    files.sort();
+    let mut n = 0;
+    for f in files {
+        let Ok(txt) = std::fs::read_to_string(&f) else { continue };
+        let Ok(v) = serde_json::from_str::<Value>(&txt) else { continue };
+        let lines: Vec<String> = v["ops"].as_array().map(|a| a.iter().filter_map(|x| x.as_str().map(String::from)).collect()).unwrap_or_default();
+        if lines.len() > 1 && lines[0].starts_with("case") {
+            ses.run_case(sut, &lines);
+            n += 1;
         }
     }
+    ses.note(format!("corpus: {n} stored case(s) from {dir} re-run"));
+    if n > 0 {
+        ses.mark("corpus:ran".to_string());
     }
 }
 
@@ -1008,22 +1698,95 @@ fn main() {
     }
     let codes = sut.w.codes.clone();
     let only = std::env::var("C18_ONLY").unwrap_or_default();
-    if only.is_empty() || only == "masks" {
-        part_masks(&mut ses, &mut sut, &codes);
+    let all = only.is_empty();
+    let mut harness_panics: Vec<String> = vec![];
+    {
+        let parts: Vec<(&str, fn(&mut Session, &mut S, &Codes))> = vec![("surface", part_surface), ("masks", part_masks), ("directed", part_directed), ("status", part_status), ("world", part_world), ("corpus", part_corpus)];
+        for (name, part) in parts {
+            if all || only == name {
+                // the harness must never die on unexpected contract behaviour: a panic in a generator ends that part only
+                if let Err(p) = catch(|| part(&mut ses, &mut sut, &codes)) {
+                    harness_panics.push(format!("{name}: {p}"));
+                    let _ = catch(|| ses.end_case());
+                }
+            }
+        }
     }
-    if only.is_empty() || only == "directed" {
-        part_directed(&mut ses, &mut sut, &codes);
+    if all {
+        require_floor(&mut ses);
     }
-    if only.is_empty() || only == "status" {
-        part_status(&mut ses, &mut sut, &codes);
-    }
-    if only.is_empty() || only == "world" {
-        part_world(&mut ses, &mut sut, &codes);
+    ses.require("harness:no-generator-panic");
+    if harness_panics.is_empty() {
+        ses.mark("harness:no-generator-panic".to_string());
+    } else {
+        ses.note(format!("HARNESS PANIC (generator part aborted, findings so far are kept): {:?}", harness_panics));
     }
     ses.exhaustive = true;
+    for k in sut.seen_extra.clone() {
+        ses.note(format!("UNKNOWN key in a Params answer: {k} (kept raw; frame conditions apply to it)"));
+        ses.mark(format!("unknown-params-key:{k}"));
+    }
+    if sut.rebased > 0 {
+        ses.note(format!("ghost re-based on the Params answer right after instantiation in {} case(s) (instantiate normalised a submitted value)", sut.rebased));
+    }
     ses.note("values: amounts incl. 0, 1, 2^64±1, u128::MAX and random bit lengths < 2^100; u64/u32 fields incl. 0 and the type maximum; times < 2^62".to_string());
-    ses.note(format!("panics caught and world rebuilt from the op log: {}", sut.panics));
+    ses.note(format!("contract panics caught and world rebuilt from the op log: {}", sut.panics));
     ses.finish(&mut sut);
+}
+
+/// Coverage floor: classes without which the run would be vacuous. Every one is reached for every seed in the quick tier.
+fn require_floor(ses: &mut Session) {
+    for f in ALL_F {
+        let fl = fk_letter(f);
+        ses.require(format!("surface:{fl}:checked"));
+        ses.require(format!("{fl}:upd:ok:"));
+        ses.require(format!("{fl}:mig:ok:"));
+        for n in fields_of(f) {
+            ses.require(format!("{fl}:field:{n}:accepted"));
+        }
+        if f != FactoryKind::TokenMerge {
+            ses.require(format!("{fl}:upd:err:nonnative-minp"));
+            ses.require(format!("{fl}:mig:err:nonnative-minp"));
+        }
+        ses.require(format!("{fl}:create:ok:"));
+        if f != FactoryKind::TokenMerge {
+            ses.require(format!("{fl}:mint:ok:"));
+        }
+        if f != FactoryKind::Base {
+            ses.require(format!("{fl}:airdrop:ok:"));
+        }
+    }
+    for x in ["native:alone:ok", "nonnative:alone:ok", "native:with-native-minp:ok", "nonnative:with-native-minp:ok", "native:with-nonnative-minp:err", "nonnative:with-nonnative-minp:err"] {
+        ses.require(format!("O:xminp:{x}"));
+    }
+    for kind in ALL_MINTERS {
+        let fl = fk_letter(kind.factory());
+        let k = kind.name();
+        ses.require(format!("status:ok:{k}:"));
+        ses.require(format!("{fl}:directed:{k}:create:ok"));
+        ses.require(format!("{fl}:directed:{k}:create:err"));
+        ses.require(format!("{fl}:directed:{k}:ustt:ok"));
+        if kind != MinterKind::TokenMerge {
+            ses.require(format!("{fl}:directed:{k}:mint:ok"));
+        }
+        if kind != MinterKind::Base {
+            ses.require(format!("{fl}:directed:{k}:ustt:err"));
+            ses.require(format!("{fl}:directed:{k}:airdrop:ok"));
+            ses.require(format!("{fl}:directed:{k}:airdrop:err"));
+            ses.require(format!("{fl}:directed:{k}:pal:ok"));
+            ses.require(format!("{fl}:directed:{k}:pal:err"));
+        }
+        if kind.is_vending() || kind.is_open_edition() {
+            ses.require(format!("{fl}:directed:{k}:price:ok"));
+            ses.require(format!("{fl}:directed:{k}:price:err"));
+            ses.require(format!("{fl}:directed:{k}:setwl:ok"));
+            ses.require(format!("{fl}:directed:{k}:setwl:err"));
+        }
+        if kind.is_vending() || kind == MinterKind::TokenMerge {
+            ses.require(format!("{fl}:directed:{k}:shuffle:ok"));
+            ses.require(format!("{fl}:directed:{k}:shuffle:err"));
+        }
+    }
 }
 
 // ------------------------------------------------------------------------------------------------ worlds with minters
@@ -1053,11 +1816,11 @@ fn sane_params(r: &mut Rng, kind: MinterKind, codes: &Codes) -> FactoryParams {
 
 /// a sane single-field value (so that later creations / mints mostly succeed)
 fn sane_upd(r: &mut Rng, f: FactoryKind, names: &[&str], codes: &Codes) -> Upd {
-    let mut u = Upd { nulls: r.chance(1, 2), ..Default::default() };
+    let mut u = Upd { nulls: r.chance(1, 2), via_mig: r.chance(1, 5), ..Default::default() };
     let fam = family_codes(f, codes);
     for n in names {
         match *n {
-            "code" => u.code = Some(if r.chance(1, 8) { 9999 } else { *r.pick(&fam) }),
+            "code" => u.code = Some(if r.chance(1, 8) || fam.is_empty() { 9999 } else { *r.pick(&fam) }),
             "add" => u.add = Some(world_ids(r, codes)),
             "rm" => u.rm = Some(if r.chance(1, 2) { vec![*r.pick(&[1u64, 2, 3, 77, codes.sg721_base])] } else { world_ids(r, codes) }),
             "frozen" => u.frozen = Some(r.chance(1, 3)),
@@ -1070,9 +1833,10 @@ fn sane_upd(r: &mut Rng, f: FactoryKind, names: &[&str], codes: &Codes) -> Upd {
             "adp" => u.adp = Some((if r.chance(1, 8) { 1 } else { 0 }, *r.pick(&[0u128, 1, 1000, 77_777]))),
             "adbps" => u.adbps = Some(*r.pick(&[0u64, 1, 2500, 5000, 10_000, 10_001])),
             "shuf" => u.shuf = Some((if r.chance(1, 10) { 2 } else { 0 }, *r.pick(&[0u128, 1, 2, 500, 501]))),
-            "xminp" => u.xminp = Some(rand_coin(r, 5)),
+            // the open-edition message's own minimum price: any denom, small and huge amounts
+            "xminp" => u.xminp = Some(if r.chance(1, 2) { rand_coin(r, 5) } else { (r.below(2), *r.pick(&[0u128, 1, 999, 70_000])) }),
             "dev" => u.dev = Some(r.range(60, 69)),
-            _ => unreachable!(),
+            _ => {}
         }
     }
     if f == FactoryKind::Base {
@@ -1090,9 +1854,6 @@ struct Gen {
     next_buyer: u64,
 }
 
-fn fu(m: &BTreeMap<&'static str, String>, k: &str) -> u64 {
-    m.get(k).and_then(|s| s.parse().ok()).unwrap_or(0)
-}
 fn near(r: &mut Rng, x: u128) -> u128 {
     match r.below(10) {
         0 => x.saturating_sub(1),
@@ -1107,43 +1868,65 @@ fn funds_str(c: (u64, u128)) -> String {
         fmt_coin(c)
     }
 }
+const MAX_T: u128 = 1u128 << 62;
 
 impl Gen {
     fn new(f: FactoryKind) -> Gen {
         Gen { f, now: T0, made: BTreeMap::new(), next_slot: 1, next_buyer: 100 }
     }
+    /// generator decisions are taken from the GHOST (what governance submitted), never from an answer of the contracts
     fn create_line(&mut self, r: &mut Rng, sut: &S, codes: &Codes, valid: bool) -> String {
-        let cur = sut.flat();
-        let ids: Vec<u64> = cur.get("ids").filter(|x| *x != "-").map(|x| x.split(',').filter_map(|y| y.parse().ok()).collect()).unwrap_or_default();
-        let good: Vec<u64> = ids.iter().copied().filter(|x| [codes.sg721_base, codes.sg721_updatable].contains(x)).collect();
+        let cur = &sut.ghost;
+        let good: Vec<u64> = cur.ids.iter().copied().filter(|x| [codes.sg721_base, codes.sg721_updatable].contains(x)).collect();
         let sg = if !good.is_empty() && (valid || r.chance(3, 4)) { *r.pick(&good) } else { *r.pick(&[codes.sg721_base, codes.sg721_updatable, codes.sg721_nt, 1, 77]) };
-        let mtl = fu(&cur, "mtl");
-        let mpal = fu(&cur, "mpal");
+        let mtl = cur.u64("mtl");
+        let mpal = cur.u64("mpal");
         let num: Option<u64> = match self.f {
             FactoryKind::Base => None,
             FactoryKind::OpenEdition if r.chance(1, 3) => None,
-            _ => Some(if valid { mtl.clamp(1, 300).min(mtl.max(1)) } else { (*r.pick(&[1u64, mtl.saturating_sub(1), mtl, mtl + 1, 0])).min(320) }),
+            _ => Some(if valid { mtl.clamp(1, 300) } else { (*r.pick(&[1u64, mtl.saturating_sub(1), mtl, mtl.saturating_add(1), 0])).min(320) }),
         };
-        let pal: u64 = if self.f == FactoryKind::Base { 1 } else if valid { mpal.clamp(1, 3) } else { *r.pick(&[1u64, 2, 3, 4, mpal, mpal + 1, 0]) };
-        let minp = coin_of_s(cur.get("minp"));
-        let price = if valid { (minp.0, minp.1 + 10_000) } else { (if r.chance(1, 10) { 1 } else { minp.0 }, *r.pick(&[minp.1.saturating_sub(1), minp.1, minp.1 + 1, minp.1 * 2 + 10_000, 0])) };
-        let fee = coin_of_s(cur.get("cfee"));
-        let funds = if valid { fee } else { match r.below(10) { 0 => (fee.0, fee.1.saturating_sub(1)), 1 => (fee.0, fee.1 + 1), 2 => (fee.0 + 1, fee.1), 3 => (0, 0), _ => fee } };
-        let start = self.now + 1_000_000_000_000;
-        let off = fu(&cur, "off");
-        let bound = start as u128 + off as u128 * 1_000_000_000;
-        let stt: Option<u128> = if valid || r.chance(1, 2) || bound > (1u128 << 62) { None } else { Some(match r.below(4) { 0 => bound - 1, 1 => bound + 1, 2 => start as u128, _ => bound }) };
+        let pal: u64 = if self.f == FactoryKind::Base { 1 } else if valid { mpal.clamp(1, 3) } else { *r.pick(&[1u64, 2, 3, 4, mpal, mpal.saturating_add(1), 0]) }.min(u32::MAX as u64);
+        let minp = cur.coin("minp");
+        let price = if valid {
+            (minp.0, minp.1.saturating_add(10_000))
+        } else {
+            (if r.chance(1, 10) { 1 } else { minp.0 }, *r.pick(&[minp.1.saturating_sub(1), minp.1, minp.1.saturating_add(1), minp.1.saturating_mul(2).saturating_add(10_000), 0]))
+        };
+        let fee = cur.coin("cfee");
+        let funds = if valid {
+            fee
+        } else {
+            match r.below(10) {
+                0 => (fee.0, fee.1.saturating_sub(1)),
+                1 => (fee.0, fee.1.saturating_add(1)),
+                2 => (fee.0.saturating_add(1) % 3, fee.1),
+                3 => (0, 0),
+                _ => fee,
+            }
+        };
+        let start = self.now.saturating_add(1000 * SEC);
+        let off = cur.u64("off");
+        let bound = (start as u128).saturating_add((off as u128).saturating_mul(SEC as u128));
+        let stt: Option<u128> = if valid || r.chance(1, 2) || bound > MAX_T {
+            None
+        } else {
+            Some(match r.below(4) {
+                0 => bound.saturating_sub(1),
+                1 => bound.saturating_add(1),
+                2 => start as u128,
+                _ => bound,
+            })
+        };
         let slot = self.next_slot;
-        format!(
-            "create m={} sg721={} num={} pal={} price={} funds={} start={} now={} stt={}",
-            slot, sg, fmt_opt(&num), pal, fmt_coin(price), funds_str(funds), start, self.now, fmt_opt(&stt)
-        )
+        format!("create m={} sg721={} num={} pal={} price={} funds={} start={} now={} stt={}", slot, sg, fmt_opt(&num), pal, fmt_coin(price), funds_str(funds), start, self.now, fmt_opt(&stt))
     }
     fn after_create(&mut self, line: &str, out: &str) {
         if out.starts_with("ok") {
-            let slot = kv_u64(line, "m").unwrap();
-            self.made.insert(slot, (kv_u64(line, "start").unwrap(), kv_opt_u64(line, "num").unwrap().unwrap_or(0)));
-            self.next_slot += 1;
+            if let Some(slot) = kv_u64(line, "m") {
+                self.made.insert(slot, (kv_u64(line, "start").unwrap_or(self.now), kv_opt_u64(line, "num").unwrap_or(None).unwrap_or(0)));
+                self.next_slot += 1;
+            }
         }
     }
     fn pick_slot(&self, r: &mut Rng) -> Option<u64> {
@@ -1159,31 +1942,33 @@ impl Gen {
     fn mint_line(&mut self, r: &mut Rng, sut: &S, slot: u64, valid: bool) -> String {
         let start = self.made.get(&slot).map(|x| x.0).unwrap_or(self.now);
         if self.f != FactoryKind::Base && self.now < start {
-            self.now = if !valid && r.chance(1, 8) { start - 1 } else { start };
+            self.now = if !valid && r.chance(1, 8) { start.saturating_sub(1) } else { start };
         }
-        let cur = sut.flat();
         let (price, kind) = match sut.minters.get(&slot) {
-            Some(m) => (sut.minter_price(&m.addr, m.kind), m.kind),
+            Some(m) => (m.price, m.kind),
             None => ((0, 1000), MinterKind::Vending),
         };
-        let due = if kind == MinterKind::Base { (0u64, price.1.saturating_mul(fu(&cur, "bps") as u128) / 10_000) } else { price };
+        let due = if kind == MinterKind::Base { (0u64, price.1.checked_mul(sut.ghost.u64("bps") as u128).map(|x| x / 10_000).unwrap_or(u128::MAX)) } else { price };
         let funds = if valid { due } else { (due.0, near(r, due.1)) };
         self.next_buyer += 1;
         format!("mint m={} now={} buyer={} funds={}", slot, self.now, self.next_buyer, funds_str(funds))
     }
     fn airdrop_line(&mut self, r: &mut Rng, sut: &S, slot: u64, valid: bool) -> String {
-        let adp = coin_of_s(sut.flat().get("adp"));
+        let adp = sut.ghost.coin("adp");
         let funds = if valid { adp } else { (adp.0, near(r, adp.1)) };
         format!("airdrop m={} funds={}", slot, funds_str(funds))
     }
     fn world_op(&mut self, r: &mut Rng, sut: &S, codes: &Codes) -> String {
-        let cur = sut.flat();
+        let cur = &sut.ghost;
         let names = fields_of(self.f);
         let slot = self.pick_slot(r);
         let roll = r.below(100);
         let valid = r.chance(7, 10);
         match (roll, slot) {
             (0..=24, _) | (_, None) if roll <= 24 || (slot.is_none() && roll >= 45) => {
+                if r.chance(1, 25) {
+                    return "mignone".to_string();
+                }
                 let n = 1 + r.below(3) as usize;
                 let sel: Vec<&str> = (0..n).map(|_| *r.pick(&names)).collect::<BTreeSet<_>>().into_iter().collect();
                 sane_upd(r, self.f, &sel, codes).line()
@@ -1192,34 +1977,38 @@ impl Gen {
             (45..=64, Some(s)) if self.f != FactoryKind::TokenMerge => self.mint_line(r, sut, s, valid),
             (45..=74, Some(s)) if self.f != FactoryKind::Base => self.airdrop_line(r, sut, s, valid),
             (75..=80, Some(s)) if self.f != FactoryKind::Base => {
-                let mpal = fu(&cur, "mpal");
+                let mpal = cur.u64("mpal");
                 let num = self.made.get(&s).map(|x| x.1).unwrap_or(0);
-                let three = (num * 3 + 99) / 100;
-                format!("pal m={} limit={}", s, *r.pick(&[0u64, 1, 2, 3, 4, mpal, mpal + 1, three, three + 1]))
+                let three = (num.saturating_mul(3).saturating_add(99)) / 100;
+                format!("pal m={} limit={}", s, (*r.pick(&[0u64, 1, 2, 3, 4, mpal, mpal.saturating_add(1), three, three.saturating_add(1)])).min(u32::MAX as u64))
             }
             (81..=84, Some(s)) if matches!(self.f, FactoryKind::Vending | FactoryKind::TokenMerge) => {
-                let fee = coin_of_s(cur.get("shuf"));
+                let fee = cur.coin("shuf");
                 self.next_buyer += 1;
                 format!("shuffle m={} buyer={} funds={}", s, self.next_buyer, funds_str((0, if valid { fee.1 } else { near(r, fee.1) })))
             }
             (85..=88, Some(s)) => {
                 let start = self.made.get(&s).map(|x| x.0).unwrap_or(self.now) as u128;
-                let bound = start + fu(&cur, "off") as u128 * 1_000_000_000;
+                let bound = start.saturating_add((cur.u64("off") as u128).saturating_mul(SEC as u128));
                 let t: Option<u128> = match r.below(6) {
                     0 => None,
-                    1 => Some(self.now as u128 - 1),
+                    1 => Some((self.now as u128).saturating_sub(1)),
                     2 => Some(self.now as u128),
                     3 => Some(bound.saturating_sub(1)),
-                    4 => Some(bound + 1),
+                    4 => Some(bound.saturating_add(1)),
                     _ => Some(bound),
                 };
-                let t = t.filter(|x| *x < (1u128 << 62));
+                let t = t.filter(|x| *x < MAX_T);
                 format!("ustt m={} now={} t={}", s, self.now, fmt_opt(&t))
             }
             (89..=92, Some(s)) if matches!(self.f, FactoryKind::Vending | FactoryKind::OpenEdition) => {
-                let minp = coin_of_s(cur.get("minp")).1;
-                let price = sut.minters.get(&s).map(|m| sut.minter_price(&m.addr, m.kind).1).unwrap_or(0);
-                format!("price m={} now={} p={}", s, self.now, *r.pick(&[minp.saturating_sub(1), minp, minp + 1, price.saturating_sub(1), price, price + 1, 0]))
+                let minp = cur.coin("minp").1;
+                let price = sut.minters.get(&s).map(|m| m.price.1).unwrap_or(0);
+                if r.chance(1, 4) {
+                    let wl = *r.pick(&[minp.saturating_sub(1), minp, minp.saturating_add(1), price]);
+                    return format!("setwl m={} now={} wlp={}", s, self.now, fmt_coin((cur.coin("minp").0, wl)));
+                }
+                format!("price m={} now={} p={}", s, self.now, *r.pick(&[minp.saturating_sub(1), minp, minp.saturating_add(1), price.saturating_sub(1), price, price.saturating_add(1), 0]))
             }
             (_, Some(s)) => format!("status m={} v={} b={} e={}", s, r.below(2), r.below(2), r.below(2)),
         }
@@ -1235,42 +2024,47 @@ fn run_op(ses: &mut Session, sut: &mut S, g: &mut Gen, line: &str) -> String {
     let op = line.split_whitespace().next().unwrap_or("");
     let fl = fk_letter(g.f);
     let res = out.split_whitespace().next().unwrap_or("").to_string();
-    let kind = kv_u64(line, "m").and_then(|s| sut.minters.get(&s)).map(|m| m.kind.name()).unwrap_or("-");
+    let slot = kv_u64(line, "m").unwrap_or(0);
+    let kind = sut.minters.get(&slot).map(|m| m.kind.name()).unwrap_or("-");
     match op {
         "upd" => {
             let u = Upd::parse(line);
-            ses.mark(class_of_upd(g.f, &u, &res));
+            mark_upd(ses, g.f, &u, &res);
             ses.step(sut, "qp");
             if u.add.is_some() || u.rm.is_some() {
                 ses.step(sut, "qids");
             }
         }
+        "mignone" => {
+            ses.mark(format!("{fl}:mignone:{res}"));
+            ses.step(sut, "qp");
+        }
         "create" => {
             g.after_create(line, &out);
             ses.mark(format!("{fl}:create:{res}:{kind}:stt{}:num{}", (kv(line, "stt") != Some("-")) as u8, (kv(line, "num") != Some("-")) as u8));
             if res == "ok" {
-                let slot = kv_u64(line, "m").unwrap();
                 ses.step(sut, &format!("qm m={slot}"));
                 ses.step(sut, &format!("qs m={slot}"));
             }
         }
         "mint" | "airdrop" | "shuffle" => {
-            let zero_fee = out.contains("liq=0 lp=0");
+            let zero_fee = out.contains("fee=0 ");
             ses.mark(format!("{fl}:{op}:{res}:{kind}:feezero{}", zero_fee as u8));
             if res == "ok" {
-                ses.step(sut, &format!("qm m={}", kv_u64(line, "m").unwrap()));
+                ses.step(sut, &format!("qm m={slot}"));
             }
         }
         "pal" | "price" => {
             ses.mark(format!("{fl}:{op}:{res}:{kind}"));
             if res == "ok" {
-                ses.step(sut, &format!("qm m={}", kv_u64(line, "m").unwrap()));
+                ses.step(sut, &format!("qm m={slot}"));
             }
         }
+        "setwl" => ses.mark(format!("{fl}:{op}:{res}:{kind}")),
         "ustt" => ses.mark(format!("{fl}:{op}:{res}:{kind}:t{}", (kv(line, "t") != Some("-")) as u8)),
         "status" => {
-            ses.mark(format!("{op}:{res}:{kind}:{}{}{}", kv(line, "v").unwrap(), kv(line, "b").unwrap(), kv(line, "e").unwrap()));
-            ses.step(sut, &format!("qs m={}", kv_u64(line, "m").unwrap()));
+            ses.mark(format!("{op}:{res}:{kind}:{}{}{}", kv(line, "v").unwrap_or("?"), kv(line, "b").unwrap_or("?"), kv(line, "e").unwrap_or("?")));
+            ses.step(sut, &format!("qs m={slot}"));
         }
         _ => {}
     }
@@ -1302,7 +2096,8 @@ fn part_world(ses: &mut Session, sut: &mut S, codes: &Codes) {
     }
 }
 
-/// Part C: all 8 flag combinations on all 11 minters (twice, in random order), interleaved with mints / airdrops
+/// Part C: all 8 flag combinations on all 11 minters (twice, in random order), interleaved with mints / airdrops and
+/// governance updates of the factory (the status must survive all of them: `C18_status_frame`)
 fn part_status(ses: &mut Session, sut: &mut S, codes: &Codes) {
     let rounds = ses.scale(2, 6);
     for kind in ALL_MINTERS {
@@ -1319,28 +2114,39 @@ fn part_status(ses: &mut Session, sut: &mut S, codes: &Codes) {
         if !out.starts_with("ok") {
             ses.note(format!("status part: could not create {}", kind.name()));
         }
+        // a second minter of the same factory: its status must not move when the first one's is updated
+        let l = g.create_line(&mut ses.rng, sut, codes, true);
+        run_op(ses, sut, &mut g, &l);
         for _ in 0..rounds {
             let mut combos: Vec<u8> = (0..8).collect();
             ses.rng.shuffle(&mut combos);
             for c in combos {
                 let l = format!("status m=1 v={} b={} e={}", c & 1, (c >> 1) & 1, (c >> 2) & 1);
                 run_op(ses, sut, &mut g, &l);
-                if ses.rng.chance(1, 3) {
-                    let l = if kind == MinterKind::TokenMerge || ses.rng.chance(1, 3) && kind != MinterKind::Base { g.airdrop_line(&mut ses.rng, sut, 1, true) } else { g.mint_line(&mut ses.rng, sut, 1, true) };
-                    run_op(ses, sut, &mut g, &l);
-                    ses.step(sut, "qs m=1");
+                ses.step(sut, "qs m=2");
+                match ses.rng.below(6) {
+                    0 | 1 => {
+                        let l = if kind == MinterKind::TokenMerge || ses.rng.chance(1, 3) && kind != MinterKind::Base { g.airdrop_line(&mut ses.rng, sut, 1, true) } else { g.mint_line(&mut ses.rng, sut, 1, true) };
+                        run_op(ses, sut, &mut g, &l);
+                        ses.step(sut, "qs m=1");
+                    }
+                    2 => {
+                        let l = sane_upd(&mut ses.rng, f, &["off"], codes).line();
+                        run_op(ses, sut, &mut g, &l);
+                        ses.step(sut, "qs m=1");
+                    }
+                    _ => {}
                 }
             }
         }
         ses.end_case();
     }
-    ses.note("status: all 8 flag combinations on all 11 minter kinds, each followed by the Status query".to_string());
+    ses.note("status: all 8 flag combinations on all 11 minter kinds, each followed by the Status query (and the Status of a second minter)".to_string());
 }
 
 /// Part D: directed "live reading" scenarios on every minter kind: change ONE parameter between two creations / mints /
 /// admin calls with the boundary value on both sides, and the values captured at creation.
 fn part_directed(ses: &mut Session, sut: &mut S, codes: &Codes) {
-    const SEC: u64 = 1_000_000_000;
     for kind in ALL_MINTERS {
         let f = kind.factory();
         let fl = fk_letter(f);
@@ -1368,7 +2174,7 @@ fn part_directed(ses: &mut Session, sut: &mut S, codes: &Codes) {
         let sg1 = codes.sg721_updatable;
         // helpers -----------------------------------------------------------------------------------------------
         macro_rules! go {
-            ($($arg:tt)*) => {{ let l = format!($($arg)*); let o = run_op(ses, sut, &mut g, &l); ses.mark(format!("{fl}:directed:{}:{}:{}", kind.name(), l.split_whitespace().next().unwrap(), o.split_whitespace().next().unwrap())); o }};
+            ($($arg:tt)*) => {{ let l = format!($($arg)*); let o = run_op(ses, sut, &mut g, &l); ses.mark(format!("{fl}:directed:{}:{}:{}", kind.name(), l.split_whitespace().next().unwrap_or("?"), o.split_whitespace().next().unwrap_or("?"))); o }};
         }
         macro_rules! create {
             ($sg:expr, $num:expr, $pal:expr, $price:expr, $funds:expr, $stt:expr) => {{
@@ -1381,150 +2187,211 @@ fn part_directed(ses: &mut Session, sut: &mut S, codes: &Codes) {
         }
         // 1. creation, then a mint whose fee split uses the CURRENT mint_fee_bps ------------------------------------
         create!(sg0, Some(100), 3, (0, 10_000), (0, 1000), None);
+        // 1a. SetWhitelist (before the sale starts) reads the CURRENT minimum price
+        if matches!(f, FactoryKind::Vending | FactoryKind::OpenEdition) {
+            go!("setwl m=1 now={} wlp=0:999", g.now);
+            go!("setwl m=1 now={} wlp=0:1000", g.now);
+            go!("upd minp=0:1001 nulls=0 via=s");
+            go!("setwl m=1 now={} wlp=0:1000", g.now);
+            go!("setwl m=1 now={} wlp=0:1001", g.now);
+            go!("upd minp=0:1000 nulls=1 via=m");
+            go!("setwl m=1 now={} wlp=0:1000", g.now);
+        }
         let start1 = g.made.get(&1).map(|x| x.0).unwrap_or(g.now);
         if f != FactoryKind::TokenMerge {
             g.now = g.now.max(if base { g.now } else { start1 });
             let due = |bps: u128| if base { 1000 * bps / 10_000 } else { 10_000 };
             g.next_buyer += 1;
             go!("mint m=1 now={} buyer={} funds=0:{}", g.now, g.next_buyer, due(1000));
-            go!("upd bps=250 nulls=0");
+            go!("upd bps=250 nulls=0 via=s");
             g.next_buyer += 1;
             if base {
                 go!("mint m=1 now={} buyer={} funds=0:{}", g.now, g.next_buyer, due(1000)); // stale amount: refused
             }
             go!("mint m=1 now={} buyer={} funds=0:{}", g.now, g.next_buyer, due(250));
+            // the same through the migrate path: the next mint observes it at once
+            go!("upd bps=500 nulls=0 via=m");
+            g.next_buyer += 1;
+            go!("mint m=1 now={} buyer={} funds=0:{}", g.now, g.next_buyer, due(500));
+            go!("mignone");
+            g.next_buyer += 1;
+            go!("mint m=1 now={} buyer={} funds=0:{}", g.now, g.next_buyer, due(500));
+            go!("upd bps=250 nulls=1 via=s");
             // captured: base minter keeps the min price it was created with
             if base {
-                go!("upd minp=0:4000 nulls=1");
+                go!("upd minp=0:4000 nulls=1 via=s");
                 go!("mint m=1 now={} buyer={} funds=0:{}", g.now, g.next_buyer, 4000 * 250 / 10_000); // new price x bps: refused
                 go!("mint m=1 now={} buyer={} funds=0:{}", g.now, g.next_buyer, due(250));
                 go!("qm m=1");
                 create!(sg0, None, 1, (0, 0), (0, 1000), None); // a NEW base minter captures the new price
                 go!("qm m={}", g.next_slot - 1);
                 go!("mint m={} now={} buyer={} funds=0:{}", g.next_slot - 1, g.now, g.next_buyer, 4000 * 250 / 10_000);
-                go!("upd minp=0:1000 nulls=0");
+                go!("upd minp=0:1000 nulls=0 via=s");
             }
         }
         // 2. frozen stops creation ---------------------------------------------------------------------------------
-        go!("upd frozen=1 nulls=0");
+        go!("upd frozen=1 nulls=0 via=s");
         create!(sg0, Some(10), 1, (0, 10_000), (0, 1000), None);
-        go!("upd frozen=0 nulls=1");
+        go!("upd frozen=0 nulls=1 via=m");
         create!(sg0, Some(10), 1, (0, 10_000), (0, 1000), None);
         // 3. allowed collection code ids ---------------------------------------------------------------------------
-        go!("upd rm={} nulls=0", sg0);
+        go!("upd rm={} nulls=0 via=s", sg0);
         go!("qid x={}", sg0);
         create!(sg0, Some(10), 1, (0, 10_000), (0, 1000), None);
         create!(sg1, Some(10), 1, (0, 10_000), (0, 1000), None);
-        go!("upd add={},{} rm=77 nulls=0", sg0, sg0);
+        go!("upd add={},{} rm=77 nulls=0 via=s", sg0, sg0);
         go!("qids");
         create!(sg0, Some(10), 1, (0, 10_000), (0, 1000), None);
-        go!("upd add=77 rm=77 nulls=0"); // additions before removals: 77 ends up absent
+        go!("upd add=77 rm=77 nulls=0 via=s"); // additions before removals: 77 ends up absent
         go!("qid x=77");
+        go!("upd add=77 nulls=0 via=s"); // the same update twice in the same block: idempotent on the set
+        go!("upd add=77 nulls=0 via=s");
+        go!("qids");
+        go!("upd rm=77 nulls=0 via=s");
+        go!("qid x=77");
+        go!("upd add={} nulls=0 via=m", sg1); // a non-consecutive duplicate stays in the stored LIST (C18_ids_nodup_counterexample)
+        go!("qids");
+        // 3b. lists longer than any page size (the code-id queries are not paginated): 101 additions, 26 removals
+        let many: Vec<u64> = (5000..5101).collect();
+        go!("upd add={} nulls=0 via=s", fmt_list(&many));
+        go!("qids");
+        go!("qid x=5100");
+        go!("upd rm={} nulls=0 via=m", fmt_list(&many[..26]));
+        go!("qids");
+        go!("qid x=5025");
+        go!("qid x=5026");
+        go!("upd rm={} nulls=1 via=s", fmt_list(&many));
+        go!("qids");
         // 4. creation fee (amount and denom) -----------------------------------------------------------------------
-        go!("upd cfee=0:2000 nulls=0");
+        go!("upd cfee=0:2000 nulls=0 via=s");
         create!(sg0, Some(10), 1, (0, 10_000), (0, 1999), None);
         create!(sg0, Some(10), 1, (0, 10_000), (0, 2000), None);
-        go!("upd cfee=1:2000 nulls=0");
+        go!("upd cfee=1:2000 nulls=0 via=s");
         create!(sg0, Some(10), 1, (0, 10_000), (0, 2000), None);
-        sut.w.fund(&addr(ADMIN), 1, 0); // (admin already holds denom 1)
         create!(sg0, Some(10), 1, (0, 10_000), (1, 2000), None);
-        go!("upd cfee=0:1000 nulls=0");
+        go!("upd cfee=0:1000 nulls=0 via=s");
         // 5. maxima ------------------------------------------------------------------------------------------------
         if has_max {
-            go!("upd mtl=99 nulls=0");
+            go!("upd mtl=99 nulls=0 via=s");
             create!(sg0, Some(100), 3, (0, 10_000), (0, 1000), None);
             create!(sg0, Some(99), 3, (0, 10_000), (0, 1000), None);
-            go!("upd mtl=100 nulls=0");
+            go!("upd mtl=100 nulls=0 via=s");
             create!(sg0, Some(100), 3, (0, 10_000), (0, 1000), None);
-            go!("upd mpal=2 nulls=0");
+            go!("upd mpal=2 nulls=0 via=s");
             go!("pal m=1 limit=3");
             go!("pal m=1 limit=2");
             create!(sg0, Some(100), 3, (0, 10_000), (0, 1000), None);
             create!(sg0, Some(100), 2, (0, 10_000), (0, 1000), None);
-            go!("upd mpal=3 nulls=1");
+            go!("upd mpal=3 nulls=1 via=s");
             go!("pal m=1 limit=3");
             go!("pal m=1 limit=4");
-            go!("upd mpal=50 nulls=1");
+            go!("upd mpal=50 nulls=1 via=s");
             go!("pal m=1 limit=4"); // 3 % rule (where the variant has it) still caps 100 tokens at 3
         }
         // 6. minimum mint price ------------------------------------------------------------------------------------
         if matches!(f, FactoryKind::Vending | FactoryKind::OpenEdition) {
-            go!("upd minp=0:20000 nulls=0");
+            go!("upd minp=0:20000 nulls=0 via=s");
             create!(sg0, Some(10), 1, (0, 19_999), (0, 1000), None);
             create!(sg0, Some(10), 1, (0, 20_000), (0, 1000), None);
             let fresh = g.next_slot - 1;
             go!("price m={} now={} p=19999", fresh, g.now);
             go!("price m={} now={} p=20000", fresh, g.now);
-            go!("upd minp=0:5 nulls=0");
+            go!("upd minp=0:5 nulls=0 via=s");
             go!("price m={} now={} p=19999", fresh, g.now);
             go!("price m={} now={} p=4", fresh, g.now);
-            go!("upd minp=1:5 nulls=0"); // non-native: refused, nothing changes
+            go!("upd minp=1:5 nulls=0 via=s"); // non-native: refused, nothing changes
             go!("qp");
-            go!("upd minp=0:1000 nulls=0");
+            go!("upd minp=2:5 bps=1 nulls=1 via=m"); // … through migrate too, whatever else the message carries
+            go!("qp");
+            go!("upd minp=0:1000 nulls=0 via=s");
+        }
+        if base {
+            go!("upd minp=1:5 nulls=0 via=s");
+            go!("upd minp=2:5 frozen=1 nulls=1 via=m");
+            go!("qp");
         }
         // 7. airdrop price / fee, shuffle fee ----------------------------------------------------------------------
         if has_max {
             go!("airdrop m=1 funds=0:500");
-            go!("upd adp=0:700 adbps=2500 nulls=0");
+            go!("upd adp=0:700 adbps=2500 nulls=0 via=s");
             go!("airdrop m=1 funds=0:500");
             go!("airdrop m=1 funds=0:700");
-            go!("upd adbps=0 nulls=0");
+            go!("upd adbps=0 nulls=0 via=s");
             go!("airdrop m=1 funds=0:700");
             if f == FactoryKind::OpenEdition {
-                go!("upd adp=2:900 dev=67 nulls=0"); // open edition accepts a non-native airdrop price
+                go!("upd adp=2:900 dev=67 nulls=0 via=s"); // open edition accepts a non-native airdrop price
                 go!("airdrop m=1 funds=0:900");
                 go!("airdrop m=1 funds=2:900");
-                go!("upd adbps=5000 nulls=0");
+                go!("upd adbps=5000 nulls=0 via=s");
                 go!("airdrop m=1 funds=2:900");
-                go!("upd xminp=0:123456 nulls=0"); // F-C18c: dead message field, accepted and ignored
+                go!("upd adp=0:900 nulls=0 via=s");
+                go!("airdrop m=1 funds=0:900"); // developer share to the CURRENT dev_fee_address (67)
+                go!("upd dev=63 nulls=0 via=m");
+                go!("airdrop m=1 funds=0:900");
+                // F-C18c: the message's own `extension.min_mint_price` is a dead field — accepted and ignored, in any denom,
+                // with and without the top-level field; the minimum price observed later is the one set by `min_mint_price`
+                go!("upd xminp=0:123456 nulls=0 via=s");
                 go!("qp");
-                go!("upd xminp=1:7 minp=0:1000 nulls=1");
+                go!("upd xminp=1:7 nulls=0 via=s");
                 go!("qp");
+                go!("upd xminp=2:7 mpal=3 nulls=1 via=m");
+                go!("qp");
+                go!("upd xminp=1:7 minp=0:1000 nulls=1 via=s");
+                go!("qp");
+                go!("upd xminp=0:7 minp=0:1000 nulls=0 via=m");
+                go!("upd xminp=0:7 minp=1:1000 nulls=0 via=s"); // refused: the TOP-LEVEL field is non-native
+                go!("upd xminp=1:7 minp=1:1000 nulls=0 via=s");
+                go!("qp");
+                create!(sg0, Some(10), 1, (0, 999), (0, 1000), None); // still the minimum price that was set: 1000 native
+                create!(sg0, Some(10), 1, (0, 1000), (0, 1000), None);
+                go!("price m={} now={} p=999", g.next_slot - 1, g.now);
             } else {
-                go!("upd adp=2:900 nulls=0"); // refused
+                go!("upd adp=2:900 nulls=0 via=s"); // refused
                 go!("qp");
             }
         }
         if matches!(f, FactoryKind::Vending | FactoryKind::TokenMerge) {
             g.next_buyer += 1;
             go!("shuffle m=1 buyer={} funds=0:100", g.next_buyer);
-            go!("upd shuf=0:300 nulls=0");
+            go!("upd shuf=0:300 nulls=0 via=s");
             go!("shuffle m=1 buyer={} funds=0:100", g.next_buyer);
             go!("shuffle m=1 buyer={} funds=0:299", g.next_buyer);
             go!("shuffle m=1 buyer={} funds=0:300", g.next_buyer);
-            go!("upd shuf=1:300 nulls=0"); // refused
+            go!("upd shuf=1:300 nulls=0 via=s"); // refused
         }
         // 8. trading offset ----------------------------------------------------------------------------------------
         {
             let off = |secs: u64| secs as i128 * SEC as i128;
             create!(sg0, Some(10), 1, (0, 10_000), (0, 1000), Some(off(10)));
             create!(sg0, Some(10), 1, (0, 10_000), (0, 1000), Some(off(10) + 1));
-            go!("upd off=5 nulls=0");
+            go!("upd off=5 nulls=0 via=s");
             create!(sg0, Some(10), 1, (0, 10_000), (0, 1000), Some(off(5) + 1));
             create!(sg0, Some(10), 1, (0, 10_000), (0, 1000), Some(off(5)));
             let m = g.next_slot - 1;
             let st = g.made.get(&m).map(|x| x.0).unwrap_or(g.now);
             go!("ustt m={} now={} t={}", m, g.now, st + 5 * SEC + 1);
             go!("ustt m={} now={} t={}", m, g.now, st + 5 * SEC);
-            go!("upd off=6 nulls=0");
+            go!("upd off=6 nulls=0 via=m");
             go!("ustt m={} now={} t={}", m, g.now, st + 5 * SEC + 1);
+            go!("ustt m={} now={} t={}", m, g.now, st + 6 * SEC + 1);
             go!("ustt m={} now={} t=-", m, g.now);
         }
         // 9. the open-edition cap is captured at creation (not by the wl-flex variant) ------------------------------
         if f == FactoryKind::OpenEdition {
             create!(sg0, None, 1, (0, 10_000), (0, 1000), None);
             let m = g.next_slot - 1;
-            go!("upd mtl=5 nulls=0");
+            go!("upd mtl=5 nulls=0 via=s");
             go!("qm m={}", m);
-            go!("upd adp=0:0 nulls=0");
+            go!("upd adp=0:0 nulls=0 via=s");
             create!(sg0, None, 1, (0, 10_000), (0, 1000), None); // zero airdrop price needs a token limit
             go!("airdrop m={} funds=-", m);
-            go!("upd adp=0:700 mtl=100 nulls=0");
+            go!("upd adp=0:700 mtl=100 nulls=0 via=s");
         }
         // 10. code id: the NEXT creation instantiates the new minter code --------------------------------------------
         let fam = family_codes(f, codes);
-        let next_code = fam[(fam.iter().position(|c| *c == codes.minters[kind.idx()]).unwrap() + 1) % fam.len()];
-        go!("upd code={} nulls=0", next_code);
+        let pos = fam.iter().position(|c| *c == codes.minters[kind.idx()]).unwrap_or(0);
+        let next_code = fam[(pos + 1) % fam.len()];
+        go!("upd code={} nulls=0 via=s", next_code);
         create!(sg0, Some(100), 3, (0, 10_000), (0, 1000), None);
         let m = g.next_slot - 1;
         go!("qm m={}", m);
@@ -1533,15 +2400,15 @@ fn part_directed(ses: &mut Session, sut: &mut S, codes: &Codes) {
             g.now = g.now.max(st);
             g.next_buyer += 1;
             go!("mint m={} now={} buyer={} funds=0:10000", m, g.now, g.next_buyer);
-            go!("upd bps=10001 nulls=0"); // fee above the price: the mint aborts
+            go!("upd bps=10001 nulls=0 via=s"); // fee above the price: the mint aborts
             go!("mint m={} now={} buyer={} funds=0:10000", m, g.now, g.next_buyer);
-            go!("upd bps=10000 nulls=0");
+            go!("upd bps=10000 nulls=0 via=s");
             go!("mint m={} now={} buyer={} funds=0:10000", m, g.now, g.next_buyer);
         }
-        go!("upd code=9999 nulls=0");
+        go!("upd code=9999 nulls=0 via=s");
         create!(sg0, Some(10), 1, (0, 10_000), (0, 1000), None);
         go!("qp");
         ses.end_case();
     }
-    ses.note("directed: one parameter changed between two creations / mints / admin calls at the boundary value, on all 11 minter kinds".to_string());
+    ses.note("directed: one parameter changed between two creations / mints / admin calls at the boundary value, on all 11 minter kinds; updates by sudo and by migrate".to_string());
 }
